@@ -1599,33 +1599,6 @@ Proof.
   apply cpres_bind; [apply cpres_do_mkdir|]. intros _. apply cpres_entry_of.
 Qed.
 
-(* the operations for which preservation of the coherence invariant is proved *)
-Definition coh_op (o : op) : bool :=
-  match o with
-  | OMkdir _ _ => true
-  | _ => readonly_op o
-  end.
-Theorem coherent_step o s : coh_op o = true -> Coherent s -> Coherent (run_op o s).
-Proof.
-  intros Ho HC. unfold run_op. destruct o; cbn [coh_op] in Ho; try (apply cpres_readonly; assumption).
-  apply cpres_mkdir. exact HC.
-Qed.
-Definition coh_history (ops : list (bool * op)) : bool := forallb (fun o => coh_op (snd o)) ops.
-Theorem coherent_history ops : coh_history ops = true -> forall s, Coherent s -> Coherent (run_dumps ops s).
-Proof.
-  induction ops as [|[d o] ops IH]; intros Hh s HC; cbn [run_dumps]; [exact HC|].
-  cbn [coh_history forallb snd] in Hh. apply andb_prop in Hh. destruct Hh as [Ho Hr].
-  apply IH; [exact Hr|]. destruct d; [apply load_all_coherent|]; apply coherent_step; assumption.
-Qed.
-(* restart equivalence for all layer contents and all histories over those operations *)
-Theorem restart_coherent_history u ls nx ops : Forall layer_ok (u :: ls) -> coh_history ops = true ->
-  let s := run_dumps ops (load_all (fresh (Some u) ls nx)) in
-  oteq (view (load_all (restart s))) (view (load_all s)).
-Proof.
-  intros Hok Hh. cbv zeta. apply coherent_restart. apply coherent_history; [exact Hh|].
-  apply load_all_coherent. apply fresh_coherent. exact Hok.
-Qed.
-
 (* ------------------------------------------------------------------ do_mknod / do_create / do_symlink *)
 (* what the creating primitive does on the upper layer, for a parent backed by layer 0 at pp *)
 Definition mk_spec (pp : path) (nm : name) (mk : real -> M real) (cleaf : state -> tree) : Prop :=
@@ -1639,33 +1612,35 @@ Definition mk_spec (pp : path) (nm : name) (mk : real -> M real) (cleaf : state 
 Lemma mk_spec_create pp nm mode : mk_spec pp nm (fun pr => ri_create pr nm mode) (fun s => File (next_ino s) (N.land mode 4095) [] []).
 Proof.
   intros pr s U Hu Hl Hp HU. split; [repeat split; constructor|].
-  unfold ri_create, ri_guard. rewrite Hu, Hl, Hp. unfold bind at 1. cbn [ret]. unfold bind at 1. unfold fresh_ino. unfold bind at 1.
-  unfold mutate. cbn [get_layer upper]. unfold h_create.
+  unfold ri_create, ri_guard, bind, fresh_ino, mutate, ret, h_create. rewrite Hu, Hl, Hp. cbn [get_layer upper].
+  destruct (upper s) as [U0|] eqn:EU; [|discriminate]. inversion HU; subst U0.
   destruct (h_insert pp nm (File (next_ino s) (N.land mode 4095) [] []) U) as [U1|e] eqn:Ei.
-  - eexists. rewrite HU, Ei. split; [reflexivity|]. unfold set_layer; cbn. rewrite HU. auto.
-  - eexists. eexists. rewrite HU, Ei. split; [reflexivity|]. cbn. auto.
+  - eexists. split; [reflexivity|]. unfold set_layer; cbn. auto.
+  - eexists. eexists. split; [reflexivity|]. cbn. auto.
 Qed.
 Lemma mk_spec_symlink pp nm tg : mk_spec pp nm (fun pr => ri_symlink pr nm tg) (fun _ => Lnk tg).
 Proof.
   intros pr s U Hu Hl Hp HU. split; [repeat split; constructor|].
-  unfold ri_symlink, ri_guard. rewrite Hu, Hl, Hp. unfold bind at 1. cbn [ret]. unfold bind at 1.
-  unfold mutate. cbn [get_layer upper]. unfold h_symlink.
+  unfold ri_symlink, ri_guard, bind, mutate, ret, h_symlink. rewrite Hu, Hl, Hp. cbn [get_layer upper].
+  destruct (upper s) as [U0|] eqn:EU; [|discriminate]. inversion HU; subst U0.
   destruct (h_insert pp nm (Lnk tg) U) as [U1|e] eqn:Ei.
-  - eexists. rewrite HU, Ei. split; [reflexivity|]. unfold set_layer; cbn. rewrite HU. auto.
-  - eexists. eexists. rewrite HU, Ei. split; [reflexivity|]. cbn. auto.
+  - eexists. split; [reflexivity|]. unfold set_layer; cbn. rewrite ?EU. auto.
+  - eexists. eexists. split; [reflexivity|]. cbn. auto.
 Qed.
 
 Definition make_tail (pp : path) (nm : name) (mk : real -> M real) (pr : real) (delw : bool) (existing : bool) : M unit :=
   if existing then
-    (if delw then delete_whiteout_ignored pr nm else ret tt);;; ri <- mk pr;; mod_node (pp ++ [nm]) (add_upper ri true)
-  else ri <- mk pr;; insert_child pp nm (new_node ri).
+    ((if delw then delete_whiteout_ignored pr nm else ret tt);;; (ri <- mk pr;; mod_node (pp ++ [nm]) (add_upper ri true)))
+  else (ri <- mk pr;; insert_child pp nm (new_node ri)).
 
 Lemma make_tail_coherent s2 (pp : path) (nm : name) mk cleaf pr prs pn2 u2 m x ch rest delw existing r s' :
   mk_spec pp nm mk cleaf ->
   Coherent s2 -> upper s2 = Some u2 -> tget u2 pp = Some (Dir m x ch) ->
   nget pp (root s2) = Some pn2 -> n_reals pn2 = pr :: prs -> r_upper pr = true -> r_layer pr = 0%nat -> r_path pr = pp ->
   n_loaded pn2 = true -> lstack (shp s2) (List.length (lowers s2)) pp = 0%nat :: rest ->
-  (if existing then exists c, afind nm (n_ch pn2) = Some c /\ n_loaded c = false /\ n_ch c = [] else afind nm (n_ch pn2) = None) ->
+  (match existing return Prop with
+   | true => exists c, afind nm (n_ch pn2) = Some c /\ n_loaded c = false /\ n_ch c = []
+   | false => afind nm (n_ch pn2) = None end) ->
   match afind nm ch with
   | Some Wh => delw = true /\ existing = true
   | None => delw = false \/ existing = false
@@ -1692,7 +1667,7 @@ Proof.
       + reflexivity.
       + rewrite tget_tupd, Etg. reflexivity.
       + rewrite afind_adel, String.eqb_refl. reflexivity.
-    - assert (E : (if existing then delw else false) = false) by (destruct Hcase as [->| ->]; destruct existing; reflexivity).
+    - assert (E : (if existing then delw else false) = false) by (destruct existing, delw; try reflexivity; destruct Hcase; discriminate).
       rewrite E. exists s2. cbn [ret]. repeat split; auto. }
   destruct Hs3 as (s3 & E3 & Hu3 & Hl3 & Hr3 & Hn3 & Etg3 & Enm3).
   destruct (MK pr s3 Ua Hpu Hl0 Hpp Hu3) as ((Cd & Cw & Cwf & Cleaf) & Hmk).
@@ -1746,4 +1721,1032 @@ Proof.
     + apply keys_aset. apply Npn2.
     + rewrite afind_aset, String.eqb_refl. reflexivity.
     + intros k Hk. rewrite afind_aset. apply String.eqb_neq in Hk. rewrite Hk. reflexivity.
+Qed.
+
+Definition make_rest (pp : path) (nm : name) (mk : real -> M real) (delw existing : bool) : M unit :=
+  copy_node_up pp;;; pn' <- get_node pp;; pr <- upper_real pn' EINVAL;; make_tail pp nm mk pr delw existing.
+
+Lemma make_rest_coherent (pp : path) (nm : name) mk cleaf delw existing s1 pn1 r s' :
+  mk_spec pp nm mk cleaf -> Coherent s1 -> nget pp (root s1) = Some pn1 -> n_wh pn1 = false ->
+  (n_loaded pn1 = true \/ first_dir (n_reals pn1) = false) ->
+  (match existing return Prop with
+   | true => exists c, afind nm (n_ch pn1) = Some c /\ n_wh c = true /\ delw = in_upper c
+   | false => afind nm (n_ch pn1) = None end) ->
+  make_rest pp nm mk delw existing s1 = (r, s') -> Coherent s'.
+Proof.
+  intros MK HC1 Hg1 Hw1 Hld1 Hchild Hrun. unfold make_rest in Hrun.
+  unfold bind at 1 in Hrun. destruct (copy_node_up pp s1) as [rc s2] eqn:Ecu.
+  destruct (cnu_coherent pp s1 rc s2 HC1) as (HC2 & SP2 & Hl2 & Fr2 & Hup2); [intros n0 Hn0; rewrite Hg1 in Hn0; inversion Hn0; subst; exact Hw1|exact Ecu|].
+  destruct rc as [[]|e]; [|inversion Hrun; subst; exact HC2]. specialize (Hup2 eq_refl).
+  unfold bind at 1 in Hrun. unfold get_node at 1 in Hrun.
+  destruct (same_paths_some s1 s2 pp pn1 SP2 Hg1) as (pn2 & Hg2 & Hsig2). rewrite Hg2 in Hrun.
+  pose proof (Hup2 pn2 Hg2) as Hpu. unfold in_upper in Hpu. unfold bind at 1 in Hrun. unfold upper_real in Hrun.
+  destruct (n_reals pn2) as [|pr prs] eqn:Epr; [discriminate|]. rewrite Hpu in Hrun. cbn [ret] in Hrun.
+  pose proof HC2 as ([u2 Hu2] & Hwl2 & HCT2). pose proof (HCT2 pp pn2 Hg2) as Npn2. cbn [app] in Npn2.
+  destruct (first_upper_stack s2 pp pn2 pr prs Npn2 Epr Hpu) as (Hl0 & Hpp & rest & Hstk).
+  assert (Hq2 : nget (pp ++ [nm]) (root s2) = nget (pp ++ [nm]) (root s1)) by (apply Fr2; apply not_prefix_snoc).
+  assert (Hrg : rgood (shp s2) pp pr) by (pose proof (ok_reals _ _ _ _ Npn2) as G; rewrite Epr in G; exact (Forall_inv G)).
+  assert (Hchild2 : forall c, afind nm (n_ch pn1) = Some c -> afind nm (n_ch pn2) = Some c).
+  { intros c Hc. pose proof (nget_snoc pp nm (root s1) pn1 c Hg1 Hc) as Hqc. rewrite <- Hq2 in Hqc.
+    exact (nget_child pp nm (root s2) pn2 c Hg2 Hqc). }
+  destruct (tget u2 pp) as [[m x ch| | |]|] eqn:Etg.
+  - pose proof (sh_dir_of_tget s2 u2 pp m x ch Hu2 Etg) as Hpd.
+    assert (Hfd2 : first_dir (n_reals pn2) = true).
+    { destruct Hrg as (_ & _ & Hs). rewrite Hl0, Hpd in Hs. rewrite Epr. cbn. tauto. }
+    assert (Hld2 : n_loaded pn2 = true).
+    { unfold nsig in Hsig2. inversion Hsig2 as [[A B]]. rewrite A. destruct Hld1 as [H|H]; [exact H|]. congruence. }
+    destruct (ok_ld _ _ _ _ Npn2 Hld2) as (_ & _ & Kids).
+    assert (Hag0 : forall i p', ~ is_prefix (pp ++ [nm]) p' -> shp s2 i p' = shp s2 i p') by reflexivity.
+    pose proof (kids_old (shp s2) (shp s2) (List.length (lowers s2)) pp nm Hag0 (fun j p' => eq_refl) rest _ Hstk Hpd) as Ko.
+    apply (make_tail_coherent s2 pp nm mk cleaf pr prs pn2 u2 m x ch rest delw existing r s' MK HC2 Hu2 Etg Hg2 Epr Hpu Hl0 Hpp Hld2 Hstk); [| |exact Hrun].
+    + destruct existing.
+      * destruct Hchild as (c & Hc & Hwc & _). exists c. split; [apply Hchild2; exact Hc|].
+        pose proof (nget_snoc pp nm (root s2) pn2 c Hg2 (Hchild2 c Hc)) as Hqc. pose proof (HCT2 _ _ Hqc) as Nc. cbn [app] in Nc.
+        destruct (first_good_stat s2 _ _ c Nc) as (rw & rws & tw & Erw & _ & Hstw & Hwt & _ & _).
+        apply (unloaded_nondir s2 _ c tw Nc Hstw).
+        pose proof (ok_wh _ _ _ _ Nc) as W. rewrite Erw in W. cbn in W. rewrite Hwc in W. rewrite <- W in Hwt. destruct tw; try discriminate; reflexivity.
+      * destruct (afind nm (n_ch pn2)) as [c2|] eqn:E2; [|reflexivity].
+        pose proof (nget_snoc pp nm (root s2) pn2 c2 Hg2 E2) as H2. rewrite Hq2, (nget_snoc_none pp nm (root s1) pn1 Hg1 Hchild) in H2. discriminate.
+    + destruct existing.
+      * destruct Hchild as (c & Hc & Hwc & ->).
+        pose proof (nget_snoc pp nm (root s2) pn2 c Hg2 (Hchild2 c Hc)) as Hqc. pose proof (HCT2 _ _ Hqc) as Nc. cbn [app] in Nc.
+        destruct (first_good_stat s2 _ _ c Nc) as (rw & rws & tw & Erw & Etw & _ & Hwt & _ & Hpw).
+        assert (Htw : tw = Wh).
+        { pose proof (ok_wh _ _ _ _ Nc) as W. rewrite Erw in W. cbn in W. rewrite Hwc in W. rewrite <- W in Hwt. destruct tw; try discriminate. reflexivity. }
+        subst tw. unfold in_upper. rewrite Erw.
+        pose proof (ok_reals _ _ _ _ Nc) as G. rewrite Erw in G. pose proof (Forall_inv G) as (_ & Hupw & _).
+        destruct (r_upper rw) eqn:Euw.
+        -- symmetry in Hupw. apply Nat.eqb_eq in Hupw. rewrite Hupw in Etw. unfold ent in Etw. cbn [get_layer] in Etw. rewrite Hu2 in Etw.
+           rewrite (tget_snoc u2 pp nm), Etg in Etw. rewrite Etw. auto.
+        -- symmetry in Hupw. apply Nat.eqb_neq in Hupw.
+           destruct (afind nm ch) as [y|] eqn:Ey; [|auto].
+           exfalso. pose proof (ok_hd _ _ _ _ Nc) as Hh. rewrite Erw in Hh. cbn [map hd_error] in Hh.
+           rewrite lstack_snoc, Ko in Hh.
+           assert (Hp0 : present (shp s2) (pp ++ [nm]) 0%nat = true).
+           { unfold present, shp, ent. cbn [get_layer]. rewrite Hu2, (tget_snoc u2 pp nm), Etg, Ey. reflexivity. }
+           rewrite Hp0 in Hh. cbn in Hh. inversion Hh. congruence.
+      * assert (Hn2 : afind nm (n_ch pn2) = None).
+        { destruct (afind nm (n_ch pn2)) as [c2|] eqn:E2; [|reflexivity].
+          pose proof (nget_snoc pp nm (root s2) pn2 c2 Hg2 E2) as H2. rewrite Hq2, (nget_snoc_none pp nm (root s1) pn1 Hg1 Hchild) in H2. discriminate. }
+        apply Kids in Hn2. rewrite Ko in Hn2. apply app_eq_nil in Hn2. destruct Hn2 as [Hp0 _].
+        destruct (afind nm ch) as [y|] eqn:Ey; [|auto].
+        exfalso. assert (Hp1 : present (shp s2) (pp ++ [nm]) 0%nat = true).
+        { unfold present, shp, ent. cbn [get_layer]. rewrite Hu2, (tget_snoc u2 pp nm), Etg, Ey. reflexivity. }
+        rewrite Hp1 in Hp0. discriminate.
+  - assert (Hne : existing = false).
+    { destruct existing; [|reflexivity]. exfalso. destruct Hchild as (c & Hc & _). pose proof (Hchild2 c Hc) as Hch.
+      assert (Hld2 : n_loaded pn2 = true).
+      { destruct (n_loaded pn2) eqn:El; [reflexivity|]. rewrite (ok_unl _ _ _ _ Npn2 El) in Hch. discriminate. }
+      destruct (ok_ld _ _ _ _ Npn2 Hld2) as (_ & Fd & _). rewrite Epr in Fd. cbn in Fd.
+      destruct Hrg as (_ & _ & Hs). rewrite Hl0 in Hs. unfold shp, ent in Hs. cbn [get_layer] in Hs. rewrite Hu2, Etg in Hs. cbn in Hs.
+      destruct Hs as (_ & Hd & _). congruence. }
+    subst existing. unfold make_tail in Hrun. unfold bind at 1 in Hrun.
+    destruct (MK pr s2 u2 Hpu Hl0 Hpp Hu2) as (_ & Hmk). unfold h_insert in Hmk. rewrite Etg in Hmk.
+    destruct Hmk as (e & s3 & E3 & A & B & C). rewrite E3 in Hrun. inversion Hrun; subst.
+    exact (coherent_same_disk s2 s' A B C HC2).
+  - assert (Hne : existing = false).
+    { destruct existing; [|reflexivity]. exfalso. destruct Hchild as (c & Hc & _). pose proof (Hchild2 c Hc) as Hch.
+      assert (Hld2 : n_loaded pn2 = true).
+      { destruct (n_loaded pn2) eqn:El; [reflexivity|]. rewrite (ok_unl _ _ _ _ Npn2 El) in Hch. discriminate. }
+      destruct (ok_ld _ _ _ _ Npn2 Hld2) as (_ & Fd & _). rewrite Epr in Fd. cbn in Fd.
+      destruct Hrg as (_ & _ & Hs). rewrite Hl0 in Hs. unfold shp, ent in Hs. cbn [get_layer] in Hs. rewrite Hu2, Etg in Hs. cbn in Hs.
+      destruct Hs as (_ & Hd & _). congruence. }
+    subst existing. unfold make_tail in Hrun. unfold bind at 1 in Hrun.
+    destruct (MK pr s2 u2 Hpu Hl0 Hpp Hu2) as (_ & Hmk). unfold h_insert in Hmk. rewrite Etg in Hmk.
+    destruct Hmk as (e & s3 & E3 & A & B & C). rewrite E3 in Hrun. inversion Hrun; subst.
+    exact (coherent_same_disk s2 s' A B C HC2).
+  - assert (Hne : existing = false).
+    { destruct existing; [|reflexivity]. exfalso. destruct Hchild as (c & Hc & _). pose proof (Hchild2 c Hc) as Hch.
+      assert (Hld2 : n_loaded pn2 = true).
+      { destruct (n_loaded pn2) eqn:El; [reflexivity|]. rewrite (ok_unl _ _ _ _ Npn2 El) in Hch. discriminate. }
+      destruct (ok_ld _ _ _ _ Npn2 Hld2) as (_ & Fd & _). rewrite Epr in Fd. cbn in Fd.
+      destruct Hrg as (_ & _ & Hs). rewrite Hl0 in Hs. unfold shp, ent in Hs. cbn [get_layer] in Hs. rewrite Hu2, Etg in Hs. cbn in Hs.
+      destruct Hs as (_ & Hd & _). congruence. }
+    subst existing. unfold make_tail in Hrun. unfold bind at 1 in Hrun.
+    destruct (MK pr s2 u2 Hpu Hl0 Hpp Hu2) as (_ & Hmk). unfold h_insert in Hmk. rewrite Etg in Hmk.
+    destruct Hmk as (e & s3 & E3 & A & B & C). rewrite E3 in Hrun. inversion Hrun; subst.
+    exact (coherent_same_disk s2 s' A B C HC2).
+  - exfalso. destruct Hrg as (_ & _ & Hs). rewrite Hl0 in Hs. unfold shp, ent in Hs. cbn [get_layer] in Hs. rewrite Hu2, Etg in Hs. exact Hs.
+Qed.
+
+Lemma cpres_do_make (pp : path) (nm : name) mk cleaf : mk_spec pp nm mk cleaf -> cpres (do_make pp nm mk).
+Proof.
+  intros MK s HC. destruct (do_make pp nm mk s) as [r s'] eqn:Hrun. cbn [snd].
+  unfold do_make in Hrun.
+  pose proof HC as ([u Hu] & Hwl & HCT).
+  unfold bind at 1 in Hrun. unfold need_upper in Hrun. unfold bind at 1 in Hrun. unfold has_upper in Hrun. rewrite Hu in Hrun. cbn [ret] in Hrun.
+  unfold bind at 1 in Hrun. unfold get_node at 1 in Hrun. destruct (nget pp (root s)) as [pn|] eqn:Hg; [|inversion Hrun; subst; exact HC].
+  destruct (n_wh pn) eqn:Ew; [inversion Hrun; subst; exact HC|].
+  unfold bind at 1 in Hrun. destruct (lookup_node_ignore_enoent pp nm s) as [rf s1] eqn:Elk.
+  destruct (lookup_ignore_spec pp nm s pn rf s1 HC Hg Ew Elk) as (HC1 & Hu1 & Hl1 & pn1 & Hg1 & Hw1 & Hld1 & Hfound).
+  destruct rf as [found|e]; [|inversion Hrun; subst; exact HC1].
+  destruct found as [q|].
+  - destruct Hfound as (-> & c & Hc). unfold bind at 1 in Hrun. unfold get_node at 1 in Hrun.
+    rewrite (nget_snoc pp nm (root s1) pn1 c Hg1 Hc) in Hrun.
+    destruct (n_wh c) eqn:Ewc; cbn [negb] in Hrun; [|inversion Hrun; subst; exact HC1].
+    apply (make_rest_coherent pp nm mk cleaf (in_upper c) true s1 pn1 r s' MK HC1 Hg1 Hw1 Hld1); [eauto|exact Hrun].
+  - apply (make_rest_coherent pp nm mk cleaf false false s1 pn1 r s' MK HC1 Hg1 Hw1 Hld1); [exact Hfound|exact Hrun].
+Qed.
+Lemma cpres_create p mode : cpres (step (OCreate p mode)).
+Proof.
+  cbn [step]. apply cpres_with_parent. intros pp nm.
+  apply cpres_bind; [apply cpres_sync_parent|]. intros _.
+  apply cpres_bind; [apply (cpres_do_make pp nm _ _ (mk_spec_create pp nm mode))|]. intros _. apply cpres_entry_of.
+Qed.
+Lemma cpres_mknod p mode : cpres (step (OMknod p mode)).
+Proof.
+  cbn [step]. apply cpres_with_parent. intros pp nm.
+  apply cpres_bind; [apply cpres_sync_parent|]. intros _.
+  apply cpres_bind; [apply (cpres_do_make pp nm _ _ (mk_spec_create pp nm mode))|]. intros _. apply cpres_entry_of.
+Qed.
+Lemma cpres_symlink p tg : cpres (step (OSymlink p tg)).
+Proof.
+  cbn [step]. apply cpres_with_parent. intros pp nm.
+  apply cpres_bind; [apply cpres_lookup_node|]. intros _.
+  apply cpres_bind; [apply (cpres_do_make pp nm _ _ (mk_spec_symlink pp nm tg))|]. intros _. apply cpres_entry_of.
+Qed.
+
+(* ------------------------------------------------------------------ block: the upper entry pp/nm disappears and nothing below shows it *)
+Lemma del_block s s' U (pp : path) (nm : name) G pn rest m x ch :
+  Coherent s ->
+  upper s = Some U -> tget U pp = Some (Dir m x ch) ->
+  (forall k, k <> nm -> afind k (G ch) = afind k ch) -> afind nm (G ch) = None ->
+  upper s' = Some (tupd pp (chmap G) U) -> lowers s' = lowers s -> wf_layers s' ->
+  nget pp (root s) = Some pn -> n_loaded pn = true ->
+  lstack (shp s) (List.length (lowers s)) pp = 0%nat :: rest ->
+  lowerc (shp s) pp nm rest = [] ->
+  (exists g, root s' = nupd pp g (root s) /\ n_reals (g pn) = n_reals pn /\ n_wh (g pn) = n_wh pn /\
+      n_loaded (g pn) = n_loaded pn /\ NoDup (map fst (n_ch (g pn))) /\
+      afind nm (n_ch (g pn)) = None /\
+      (forall k, k <> nm -> afind k (n_ch (g pn)) = afind k (n_ch pn))) ->
+  Coherent s'.
+Proof.
+  intros (Hu0 & Hw & HC) Hu Hd HG Hnm Hu' Hl Hw' Hget Hld Hst Hlc (g & Hroot & G1 & G2 & G3 & G4 & G5 & G6).
+  destruct (upper_update_shape s s' U pp nm G None m x ch Hu Hu' Hl Hd HG Hnm) as (Hag & Hat & Hlow).
+  pose proof (sh_dir_of_tget s U pp m x ch Hu Hd) as Hpd.
+  set (Sh := shp s) in *. set (Sh' := shp s') in *. set (nl := List.length (lowers s)) in *.
+  assert (Hq : Sh' 0%nat (pp ++ [nm]) = None) by (rewrite (Hat []); reflexivity).
+  assert (Hpres : present Sh' (pp ++ [nm]) 0%nat = false) by (unfold present; rewrite Hq; reflexivity).
+  split; [eauto|]. split; [exact Hw'|]. rewrite Hl, Hroot. fold nl.
+  apply (update_child_coh Sh Sh' nl nm g pp [] (root s) pn); cbn [app]; [exact Hag|exact HC|exact Hget| |].
+  - destruct (g pn) as [rs' w' l' ch'] eqn:Eg. cbn [n_reals n_wh n_loaded n_ch] in *. subst rs' w' l'.
+    apply (parent_upd_ok Sh Sh' nl nm pp pn ch').
+    + exact Hag.
+    + exact (HC pp pn Hget).
+    + exact Hld.
+    + exact G4.
+    + intros k Hk. rewrite (G6 k Hk). reflexivity.
+    + rewrite G5, (kids_new Sh Sh' nl pp nm Hag Hlow rest _ Hst Hpd). unfold path, name in *. rewrite Hpres, Hlc. cbn [app]. split; reflexivity.
+  - intros k c0 Hk. right. destruct (String.eqb k nm) eqn:E.
+    + apply String.eqb_eq in E; subst k. rewrite G5 in Hk. discriminate.
+    + apply String.eqb_neq in E. split; [exact E|]. rewrite <- (G6 k E). exact Hk.
+Qed.
+
+(* ------------------------------------------------------------------ do_rm (unlink) *)
+Lemma nupd_nupd p g1 g2 : forall r, nupd p g2 (nupd p g1 r) = nupd p (fun n => g2 (g1 n)) r.
+Proof.
+  induction p as [|c p IH]; intros r; cbn [nupd]; [reflexivity|]. cbn [n_reals n_wh n_loaded n_ch].
+  f_equal. rewrite amap_amap. apply amap_ext. exact IH.
+Qed.
+Lemma lhc_false s rs nm : lower_has_child s rs nm = Ok false ->
+  forall r, In r rs -> r_upper r = false -> r_wh r = false -> forall m x ch, real_tree s r = Some (Dir m x ch) -> afind nm ch = None.
+Proof.
+  induction rs as [|a rs IH]; intros H r Hin Hu Hw m x ch Ht; [destruct Hin|]. cbn [lower_has_child] in H.
+  destruct Hin as [->|Hin].
+  - rewrite Hu, Hw in H. cbn [orb] in H. rewrite Ht in H. destruct (afind nm ch); [discriminate|reflexivity].
+  - destruct (r_upper a || r_wh a); [eapply IH; eassumption|].
+    destruct (real_tree s a) as [[m' x' ch'| | |]|]; try discriminate; try (eapply IH; eassumption).
+    destruct (afind nm ch'); [discriminate|eapply IH; eassumption].
+Qed.
+Lemma scut_In rs r : In r (scut rs) -> In r rs.
+Proof.
+  induction rs as [|a rs IH]; cbn [scut]; [auto|]. destruct (r_wh a); [intros []|]. destruct (negb (r_dir a)); [intros []|].
+  destruct (r_opq a); intros [->|H]; try (left; reflexivity); [destruct H|right; auto].
+Qed.
+Lemma lowerc_of_lhc s (pp : path) (nm : name) pn rest o :
+  wf_layers s -> NodeOK (shp s) (List.length (lowers s)) pp pn ->
+  lstack (shp s) (List.length (lowers s)) pp = 0%nat :: rest -> shp s 0%nat pp = Some (SDir o) ->
+  lower_has_child s (n_reals pn) nm = Ok false -> lowerc (shp s) pp nm rest = [].
+Proof.
+  intros Hw N Hst Hpd Hl. unfold lowerc.
+  assert (Hall : forall i, In i (tl (dcut (shp s) pp (0%nat :: rest))) -> present (shp s) (pp ++ [nm]) i = false).
+  { intros i Hi.
+    assert (Hnz : i <> 0%nat).
+    { intros ->. exact (rest_nozero (shp s) (shp s) _ pp nm (fun _ _ _ => eq_refl) (fun _ _ => eq_refl) rest o Hst Hpd Hi). }
+    assert (Hin : In i (dcut (shp s) pp (lstack (shp s) (List.length (lowers s)) pp))).
+    { rewrite Hst. destruct (dcut (shp s) pp (0%nat :: rest)); [destruct Hi|right; exact Hi]. }
+    rewrite <- (ok_cut _ _ _ _ N), <- (scut_dcut (shp s) pp _ (ok_reals _ _ _ _ N) (ok_opq _ _ _ _ N)) in Hin.
+    apply in_map_iff in Hin. destruct Hin as (r & Hr & Hrin).
+    pose proof (scut_dirs (shp s) pp _ (ok_reals _ _ _ _ N)) as Hd. rewrite Forall_forall in Hd.
+    destruct (Hd r Hrin) as [(Hp & Hup & Hs) [o' Ho']].
+    destruct (shp_dir s _ _ _ Ho') as (m & x & ch & He & _).
+    rewrite Ho' in Hs. destruct Hs as (Hwh & _).
+    assert (Hu : r_upper r = false) by (rewrite Hup, Hr; apply Nat.eqb_neq; exact Hnz).
+    pose proof (lhc_false s _ nm Hl r (scut_In _ _ Hrin) Hu Hwh m x ch) as Hnone.
+    rewrite real_tree_ent, Hp in Hnone. specialize (Hnone He).
+    unfold present, shp. rewrite <- Hr. rewrite (ent_child s (r_layer r) pp nm), He, Hnone. reflexivity. }
+  induction (tl (dcut (shp s) pp (0%nat :: rest))) as [|i l IH]; [reflexivity|]. cbn [filter].
+  rewrite (Hall i (or_introl eq_refl)). apply IH. intros j Hj. apply Hall. right; exact Hj.
+Qed.
+
+Lemma lookup_some_spec (pp : path) (nm : name) s pn q s1 :
+  Coherent s -> nget pp (root s) = Some pn -> n_wh pn = false ->
+  lookup_node pp (Some nm) s = (Ok q, s1) ->
+  Coherent s1 /\ q = pp ++ [nm] /\
+  exists pn1 c, nget pp (root s1) = Some pn1 /\ n_wh pn1 = false /\ afind nm (n_ch pn1) = Some c.
+Proof.
+  intros HC Hg Hw Hrun.
+  assert (E : lookup_node_ignore_enoent pp nm s = (Ok (Some q), s1)) by (unfold lookup_node_ignore_enoent; rewrite Hrun; reflexivity).
+  destruct (lookup_ignore_spec pp nm s pn _ s1 HC Hg Hw E) as (HC1 & _ & _ & pn1 & Hg1 & Hw1 & _ & -> & c & Hc).
+  split; [exact HC1|]. split; [reflexivity|]. eauto.
+Qed.
+
+Definition rm_tail (pp : path) (nm : name) (c pn' : node) (need0 : bool) : M unit :=
+  need <- (if in_upper c then
+             pr <- upper_real pn' EINVAL ;;
+             mutate (r_layer pr) (h_unlink (r_path pr) nm) ;;;
+             ret (need0 && negb (r_opq pr))
+           else ret need0) ;;
+  remove_child pp nm ;;;
+  if need then
+    pn'' <- get_node pp ;;
+    pr <- upper_real pn'' EINVAL ;;
+    ri <- ri_whiteout pr nm ;;
+    insert_child pp nm (new_node ri)
+  else ret tt.
+
+Lemma rm_tail_coherent (pp : path) (nm : name) s3 c pn3 need0 r s' :
+  Coherent s3 -> nget (pp ++ [nm]) (root s3) = Some c -> nget pp (root s3) = Some pn3 -> upper_at' pp s3 ->
+  (need0 = false -> upper_only c = true /\ lower_has_child s3 (n_reals pn3) nm = Ok false) ->
+  rm_tail pp nm c pn3 need0 s3 = (r, s') -> Coherent s'.
+Proof.
+  intros HC3 Hq3 Hg3 Hup3 Hneed0 Hrun. unfold rm_tail in Hrun.
+  pose proof (Hup3 pn3 Hg3) as Hpu. unfold in_upper in Hpu.
+  destruct (n_reals pn3) as [|pr prs] eqn:Epr; [discriminate|].
+  pose proof HC3 as ([u3 Hu3] & Hwl3 & HCT3). pose proof (HCT3 pp pn3 Hg3) as Npn3. cbn [app] in Npn3.
+  destruct (first_upper_stack s3 pp pn3 pr prs Npn3 Epr Hpu) as (Hl0 & Hpp & rest & Hstk).
+  pose proof (nget_child pp nm (root s3) pn3 c Hg3 Hq3) as Hch3.
+  assert (Hld3 : n_loaded pn3 = true).
+  { destruct (n_loaded pn3) eqn:El; [reflexivity|]. rewrite (ok_unl _ _ _ _ Npn3 El) in Hch3. discriminate. }
+  destruct (ok_ld _ _ _ _ Npn3 Hld3) as (_ & Fd3 & _). rewrite Epr in Fd3. cbn in Fd3.
+  assert (Hrg : rgood (shp s3) pp pr) by (pose proof (ok_reals _ _ _ _ Npn3) as G; rewrite Epr in G; exact (Forall_inv G)).
+  assert (Hpd : exists o, shp s3 0%nat pp = Some (SDir o)).
+  { destruct Hrg as (_ & _ & Hs). rewrite Hl0 in Hs. destruct (shp s3 0%nat pp) as [[o|w]|]; [eauto| |contradiction]. destruct Hs as (_ & Hd & _). congruence. }
+  destruct Hpd as [o Hpd]. destruct (shp_zero_dir s3 u3 pp o Hu3 Hpd) as (m & x & ch & Etg).
+  assert (Hpd' : shp s3 0%nat pp = Some (SDir (xs_opaque x))) by (apply (sh_dir_of_tget s3 u3 pp m x ch Hu3 Etg)).
+  pose proof (HCT3 _ _ Hq3) as Nc. cbn [app] in Nc.
+  destruct (first_good_stat s3 _ _ c Nc) as (rc1 & rcs & tc & Erc & Etc & _ & Hwtc & _ & Hpc).
+  pose proof (ok_reals _ _ _ _ Nc) as Gc. rewrite Erc in Gc. pose proof (Forall_inv Gc) as (_ & Hupc & _).
+  assert (Hag0 : forall i p', ~ is_prefix (pp ++ [nm]) p' -> shp s3 i p' = shp s3 i p') by reflexivity.
+  pose proof (kids_old (shp s3) (shp s3) (List.length (lowers s3)) pp nm Hag0 (fun j p' => eq_refl) rest _ Hstk Hpd') as Ko.
+  set (whri := mkReal 0 true (pp ++ [nm]) true false false).
+  assert (Hwf' : forall G, (forall d, wf d -> wf (chmap G d)) -> forall s4, upper s4 = Some (tupd pp (chmap G) u3) -> lowers s4 = lowers s3 -> wf_layers s4).
+  { intros G HGw s4 A B. apply (wf_layers_set_upper s3 s4 _ Hwl3 A B). apply layer_ok_tupd; [exact HGw| |apply (Hwl3 0%nat u3); cbn; exact Hu3].
+    intros d Hd. destruct d; try discriminate. reflexivity. }
+  unfold in_upper in Hrun. rewrite Erc in Hrun.
+  destruct (r_upper rc1) eqn:Euc.
+  - (* the node has an upper entry *)
+    symmetry in Hupc. apply Nat.eqb_eq in Hupc.
+    assert (Enm : afind nm ch = Some tc).
+    { rewrite Hupc in Etc. unfold ent in Etc. cbn [get_layer] in Etc. rewrite Hu3, (tget_snoc u3 pp nm), Etg in Etc. exact Etc. }
+    unfold bind at 1 in Hrun. unfold bind at 1 in Hrun. unfold upper_real in Hrun. rewrite Epr, Hpu in Hrun. cbn [ret] in Hrun.
+    unfold bind at 1 in Hrun. rewrite Hl0, Hpp in Hrun.
+    destruct (mutate 0 (h_unlink pp nm) s3) as [[[]|e] s4] eqn:Em.
+    2:{ pose proof (mutate0_same _ _ _ _ Em). subst s4. inversion Hrun; subst. exact HC3. }
+    destruct (mutate0_spec _ _ _ Em) as (U & Ua & HU & Hul & Hu4 & Hl4 & Hr4). rewrite Hu3 in HU. inversion HU; subst U; clear HU.
+    unfold h_unlink in Hul. rewrite Etg, Enm in Hul.
+    assert (HUa : Ua = tupd pp (dir_del nm) u3) by (destruct tc; inversion Hul; reflexivity). subst Ua. clear Hul.
+    cbn [ret] in Hrun. unfold bind at 1 in Hrun. unfold remove_child, mod_node in Hrun. cbn [fst snd] in Hrun.
+    set (need := need0 && negb (r_opq pr)) in Hrun.
+    destruct need eqn:Eneed.
+    + (* whiteout *)
+      unfold bind at 1 in Hrun. unfold get_node at 1 in Hrun. cbn [root] in Hrun. rewrite Hr4, nget_nupd, Hg3 in Hrun. cbn [option_map] in Hrun.
+      unfold bind at 1 in Hrun. unfold upper_real in Hrun. cbn [n_reals] in Hrun. rewrite Epr, Hpu in Hrun. cbn [ret] in Hrun.
+      unfold bind at 1 in Hrun. unfold ri_whiteout, ri_guard in Hrun. rewrite Hpu, Hl0, Hpp in Hrun.
+      unfold bind at 1 in Hrun. cbn [ret] in Hrun. unfold bind at 1 in Hrun.
+      set (s5 := mkState (upper s4) (lowers s4) (nupd pp (fun n => Node (n_reals n) (n_wh n) (n_loaded n) (adel nm (n_ch n))) (root s3)) (next_ino s4) (log s4)) in *.
+      assert (Em5 : mutate 0 (h_create_whiteout pp nm) s5 = (Ok tt, set_layer s5 0 (tupd pp (dir_ins nm Wh) (tupd pp (dir_del nm) u3)))).
+      { apply (mutate0_ok _ s5 (tupd pp (dir_del nm) u3)); [exact Hu4|].
+        unfold h_create_whiteout. rewrite (tget_snoc _ pp nm), tget_tupd, Etg. cbn [option_map dir_del]. rewrite afind_adel, String.eqb_refl.
+        unfold h_insert. rewrite tget_tupd, Etg. cbn [option_map dir_del]. rewrite afind_adel, String.eqb_refl. reflexivity. }
+      rewrite Em5 in Hrun. cbn [ret] in Hrun. unfold insert_child, mod_node in Hrun. inversion Hrun; subst r s'; clear Hrun.
+      set (G := fun l : list (name * tree) => aset nm Wh (adel nm l)).
+      apply (leaf_block s3 _ u3 pp nm G Wh pn3 rest m x ch whri).
+      * exact HC3.
+      * exact Hu3.
+      * exact Etg.
+      * intros k Hk. apply String.eqb_neq in Hk. unfold G. rewrite afind_aset, Hk, afind_adel, Hk. reflexivity.
+      * unfold G. rewrite afind_aset, String.eqb_refl. reflexivity.
+      * intros k r0. reflexivity.
+      * cbn [upper set_layer s5]. rewrite Hu4. f_equal. rewrite tupd_tupd. apply tupd_ext. intros d. destruct d; reflexivity.
+      * cbn [lowers set_layer s5]. exact Hl4.
+      * apply (Hwf' G).
+        -- intros d Hd. destruct d; try exact Hd. inversion Hd as [? ? ? Hn Hall| | |]; subst. cbn [chmap]. unfold G. constructor.
+           ++ apply keys_aset. apply keys_adel_nodup. exact Hn.
+           ++ apply Forall_aset; [apply Forall_adel; exact Hall|constructor].
+        -- cbn [upper set_layer s5]. rewrite Hu4. f_equal. rewrite tupd_tupd. apply tupd_ext. intros d. destruct d; reflexivity.
+        -- cbn [lowers set_layer s5]. exact Hl4.
+      * exact Hg3.
+      * exact Hld3.
+      * exact Hstk.
+      * cbn. repeat split; auto.
+      * left. reflexivity.
+      * exists (fun pn0 => Node (n_reals pn0) (n_wh pn0) (n_loaded pn0) (aset nm (new_node whri) (adel nm (n_ch pn0)))).
+        split; [cbn [root set_layer s5]; rewrite nupd_nupd; reflexivity|]. cbn [n_reals n_wh n_loaded n_ch].
+        repeat split; auto.
+        -- apply keys_aset. apply keys_adel_nodup. apply Npn3.
+        -- rewrite afind_aset, String.eqb_refl. reflexivity.
+        -- intros k Hk. apply String.eqb_neq in Hk. rewrite afind_aset, Hk, afind_adel, Hk. reflexivity.
+    + (* no whiteout: no lower directory of the parent holds the name *)
+      cbn [ret] in Hrun. inversion Hrun; subst r s'; clear Hrun.
+      assert (Hlc : lowerc (shp s3) pp nm rest = []).
+      { unfold need in Eneed. apply andb_false_iff in Eneed. destruct Eneed as [E|E].
+        - destruct (Hneed0 E) as [_ Hlhc]. rewrite <- Epr in Hlhc. apply (lowerc_of_lhc s3 pp nm pn3 rest _ Hwl3 Npn3 Hstk Hpd' Hlhc).
+        - apply negb_false_iff in E. destruct Hrg as (_ & _ & Hs). rewrite Hl0, Hpd' in Hs. destruct Hs as (_ & _ & Ho).
+          specialize (Ho E). unfold lowerc. cbn [dcut]. rewrite Hpd', Ho. reflexivity. }
+      apply (del_block s3 _ u3 pp nm (adel nm) pn3 rest m x ch).
+      * exact HC3.
+      * exact Hu3.
+      * exact Etg.
+      * intros k Hk. apply String.eqb_neq in Hk. rewrite afind_adel, Hk. reflexivity.
+      * rewrite afind_adel, String.eqb_refl. reflexivity.
+      * cbn [upper]. rewrite Hu4. reflexivity.
+      * cbn [lowers]. exact Hl4.
+      * apply (Hwf' (adel nm)).
+        -- intros d Hd. apply wf_chmap_adel. exact Hd.
+        -- cbn [upper]. rewrite Hu4. reflexivity.
+        -- cbn [lowers]. exact Hl4.
+      * exact Hg3.
+      * exact Hld3.
+      * exact Hstk.
+      * exact Hlc.
+      * exists (fun pn0 => Node (n_reals pn0) (n_wh pn0) (n_loaded pn0) (adel nm (n_ch pn0))).
+        split; [cbn [root]; rewrite Hr4; reflexivity|]. cbn [n_reals n_wh n_loaded n_ch]. repeat split; auto.
+        -- apply keys_adel_nodup. apply Npn3.
+        -- rewrite afind_adel, String.eqb_refl. reflexivity.
+        -- intros k Hk. apply String.eqb_neq in Hk. rewrite afind_adel, Hk. reflexivity.
+  - (* the node is backed by lower layers only: a whiteout is always needed *)
+    symmetry in Hupc. apply Nat.eqb_neq in Hupc.
+    assert (Huo : upper_only c = false) by (unfold upper_only; rewrite Erc; destruct rcs; [exact Euc|reflexivity]).
+    assert (need0 = true).
+    { destruct need0; [reflexivity|]. destruct (Hneed0 eq_refl) as [H _]. congruence. }
+    subst need0.
+    assert (Enm : afind nm ch = None).
+    { destruct (afind nm ch) as [y|] eqn:Ey; [|reflexivity]. exfalso.
+      pose proof (ok_hd _ _ _ _ Nc) as Hh. rewrite Erc in Hh. cbn [map hd_error] in Hh. rewrite lstack_snoc, Ko in Hh.
+      assert (Hp0 : present (shp s3) (pp ++ [nm]) 0%nat = true).
+      { unfold present, shp, ent. cbn [get_layer]. rewrite Hu3, (tget_snoc u3 pp nm), Etg, Ey. reflexivity. }
+      rewrite Hp0 in Hh. cbn in Hh. inversion Hh. congruence. }
+    unfold bind at 1 in Hrun. cbn [ret] in Hrun. unfold bind at 1 in Hrun. unfold remove_child, mod_node in Hrun. cbn [fst snd] in Hrun.
+    unfold bind at 1 in Hrun. unfold get_node at 1 in Hrun. cbn [root] in Hrun. rewrite nget_nupd, Hg3 in Hrun. cbn [option_map] in Hrun.
+    unfold bind at 1 in Hrun. unfold upper_real in Hrun. cbn [n_reals] in Hrun. rewrite Epr, Hpu in Hrun. cbn [ret] in Hrun.
+    unfold bind at 1 in Hrun. unfold ri_whiteout, ri_guard in Hrun. rewrite Hpu, Hl0, Hpp in Hrun.
+    unfold bind at 1 in Hrun. cbn [ret] in Hrun. unfold bind at 1 in Hrun.
+    set (s5 := mkState (upper s3) (lowers s3) (nupd pp (fun n => Node (n_reals n) (n_wh n) (n_loaded n) (adel nm (n_ch n))) (root s3)) (next_ino s3) (log s3)) in *.
+    assert (Em5 : mutate 0 (h_create_whiteout pp nm) s5 = (Ok tt, set_layer s5 0 (tupd pp (dir_ins nm Wh) u3))).
+    { apply (mutate0_ok _ s5 u3); [exact Hu3|].
+      unfold h_create_whiteout. rewrite (tget_snoc _ pp nm), Etg, Enm. unfold h_insert. rewrite Etg, Enm. reflexivity. }
+    rewrite Em5 in Hrun. cbn [ret] in Hrun. unfold insert_child, mod_node in Hrun. inversion Hrun; subst r s'; clear Hrun.
+    apply (leaf_block s3 _ u3 pp nm (aset nm Wh) Wh pn3 rest m x ch whri).
+    + exact HC3.
+    + exact Hu3.
+    + exact Etg.
+    + intros k Hk. apply String.eqb_neq in Hk. rewrite afind_aset, Hk. reflexivity.
+    + rewrite afind_aset, String.eqb_refl. reflexivity.
+    + intros k r0. reflexivity.
+    + cbn [upper set_layer s5]. rewrite Hu3. reflexivity.
+    + reflexivity.
+    + apply (Hwf' (aset nm Wh)).
+      * intros d Hd. apply wf_chmap_aset; [exact Hd|constructor].
+      * cbn [upper set_layer s5]. rewrite Hu3. reflexivity.
+      * reflexivity.
+    + exact Hg3.
+    + exact Hld3.
+    + exact Hstk.
+    + cbn. repeat split; auto.
+    + left. reflexivity.
+    + exists (fun pn0 => Node (n_reals pn0) (n_wh pn0) (n_loaded pn0) (aset nm (new_node whri) (adel nm (n_ch pn0)))).
+      split; [cbn [root set_layer s5]; rewrite nupd_nupd; reflexivity|]. cbn [n_reals n_wh n_loaded n_ch].
+      repeat split; auto.
+      * apply keys_aset. apply keys_adel_nodup. apply Npn3.
+      * rewrite afind_aset, String.eqb_refl. reflexivity.
+      * intros k Hk. apply String.eqb_neq in Hk. rewrite afind_aset, Hk, afind_adel, Hk. reflexivity.
+Qed.
+
+Lemma cpres_do_unlink (pp : path) (nm : name) : cpres (do_rm pp nm false).
+Proof.
+  intros s HC. destruct (do_rm pp nm false s) as [r s'] eqn:Hrun. cbn [snd].
+  unfold do_rm in Hrun.
+  pose proof HC as ([u Hu] & _).
+  unfold bind at 1 in Hrun. unfold need_upper in Hrun. unfold bind at 1 in Hrun. unfold has_upper in Hrun. rewrite Hu in Hrun. cbn [ret] in Hrun.
+  unfold bind at 1 in Hrun. destruct (lookup_node pp None s) as [r0 s1] eqn:E0.
+  pose proof (cpres_lookup_node pp None s HC) as HC1. rewrite E0 in HC1. cbn [snd] in HC1.
+  destruct r0 as [q0|e]; [|inversion Hrun; subst; exact HC1].
+  unfold bind at 1 in Hrun. unfold get_node at 1 in Hrun. destruct (nget pp (root s1)) as [pn|] eqn:Hg; [|inversion Hrun; subst; exact HC1].
+  destruct (n_wh pn) eqn:Ew; [inversion Hrun; subst; exact HC1|].
+  unfold bind at 1 in Hrun. destruct (lookup_node pp (Some nm) s1) as [rq s2] eqn:Eq.
+  pose proof (cpres_lookup_node pp (Some nm) s1 HC1) as HC2. rewrite Eq in HC2. cbn [snd] in HC2.
+  destruct rq as [q|e]; [|inversion Hrun; subst; exact HC2].
+  destruct (lookup_some_spec pp nm s1 pn q s2 HC1 Hg Ew Eq) as (_ & -> & pn2 & c & Hg2 & Hw2 & Hc).
+  pose proof (nget_snoc pp nm (root s2) pn2 c Hg2 Hc) as Hqc.
+  unfold bind at 1 in Hrun. unfold get_node at 1 in Hrun. rewrite Hqc in Hrun.
+  destruct (n_wh c) eqn:Ewc; [inversion Hrun; subst; exact HC2|].
+  unfold bind at 1 in Hrun. cbn [ret] in Hrun.
+  unfold bind at 1 in Hrun. destruct (copy_node_up pp s2) as [rc s3] eqn:Ecu.
+  destruct (cnu_coherent pp s2 rc s3 HC2) as (HC3 & SP3 & Hl3 & Fr3 & Hup3); [intros n0 Hn0; rewrite Hg2 in Hn0; inversion Hn0; subst; exact Hw2|exact Ecu|].
+  destruct rc as [[]|e]; [|inversion Hrun; subst; exact HC3]. specialize (Hup3 eq_refl).
+  assert (Hq3 : nget (pp ++ [nm]) (root s3) = Some c) by (rewrite (Fr3 (pp ++ [nm]) (not_prefix_snoc pp nm)); exact Hqc).
+  unfold bind at 1 in Hrun. unfold get_node at 1 in Hrun. rewrite Hq3 in Hrun.
+  destruct (same_paths_some s2 s3 pp pn2 SP3 Hg2) as (pn3 & Hg3 & _).
+  unfold bind at 1 in Hrun. unfold get_node at 1 in Hrun. rewrite Hg3 in Hrun.
+  unfold bind at 1 in Hrun.
+  destruct (upper_only c) eqn:Euo.
+  - destruct (lower_has_child s3 (n_reals pn3) nm) as [b|e] eqn:Elhc; [|inversion Hrun; subst; exact HC3].
+    change (rm_tail pp nm c pn3 b s3 = (r, s')) in Hrun.
+    apply (rm_tail_coherent pp nm s3 c pn3 b r s' HC3 Hq3 Hg3 Hup3); [|exact Hrun]. intros ->. auto.
+  - cbn [ret] in Hrun. change (rm_tail pp nm c pn3 true s3 = (r, s')) in Hrun.
+    apply (rm_tail_coherent pp nm s3 c pn3 true r s' HC3 Hq3 Hg3 Hup3); [|exact Hrun]. discriminate.
+Qed.
+Lemma cpres_unlink p : cpres (step (OUnlink p)).
+Proof.
+  cbn [step]. apply cpres_with_parent. intros pp nm.
+  apply cpres_bind; [apply cpres_do_unlink|]. intros _. apply cpres_ret.
+Qed.
+
+(* ------------------------------------------------------------------ content / attribute changes of the first backing inode *)
+Lemma lookup_none_ok p s q s1 : Coherent s -> lookup_node p None s = (Ok q, s1) ->
+  Coherent s1 /\ (forall n, nget p (root s1) = Some n -> n_wh n = false).
+Proof.
+  intros HC Hrun. pose proof (cpres_lookup_node p None s HC) as HC1. rewrite Hrun in HC1. cbn [snd] in HC1. split; [exact HC1|].
+  unfold lookup_node in Hrun. unfold bind at 1 in Hrun. unfold get_node at 1 in Hrun.
+  destruct (nget p (root s)) as [pn|] eqn:Hg; [|discriminate].
+  destruct (n_wh pn) eqn:Ew; [discriminate|].
+  unfold bind at 1 in Hrun. unfold stat_node in Hrun. destruct (node_stat s pn) as [st|]; [|discriminate].
+  unfold bind at 1 in Hrun. destruct (load_if_dir p pn st s) as [[[]|e] s0] eqn:El; [|discriminate].
+  cbn [ret] in Hrun. inversion Hrun; subst. clear Hrun.
+  unfold load_if_dir in El. destruct (is_dirT st && negb (n_loaded pn)).
+  - unfold load_dir, bind, get_node in El. rewrite Hg in El. destruct (n_loaded pn).
+    + inversion El; subst. intros n Hn. rewrite Hg in Hn. inversion Hn; subst. exact Ew.
+    + destruct (scan_children s pn); [|discriminate]. unfold mod_node in El. inversion El; subst. cbn [root].
+      intros n Hn. rewrite nget_nupd, Hg in Hn. cbn [option_map] in Hn. inversion Hn; subst.
+      destruct (load1_reals s pn) as [_ W]. rewrite W. exact Ew.
+  - inversion El; subst. intros n Hn. rewrite Hg in Hn. inversion Hn; subst. exact Ew.
+Qed.
+
+(* a tree function that keeps the shape of every entry and the well-formedness of the layer *)
+Definition shape_safe (F : tree -> res tree) : Prop :=
+  forall t t', F t = Ok t' -> (forall q, option_map sh (tget t' q) = option_map sh (tget t q)) /\ (layer_ok t -> layer_ok t').
+
+Definition attr_fun (f : tree -> tree) : Prop :=
+  file_to_file f /\ (forall m x ch, exists m' x', f (Dir m x ch) = Dir m' x' ch /\ xs_opaque x' = xs_opaque x) /\
+  (forall t, f (Lnk t) = Lnk t) /\ f Wh = Wh.
+
+Lemma sh_tupd_attr p f : attr_fun f -> forall t m x ch, tget t p = Some (Dir m x ch) ->
+  forall q, option_map sh (tget (tupd p f t) q) = option_map sh (tget t q).
+Proof.
+  intros (_ & Hd & _) t m x ch Ht q.
+  revert t Ht q. induction p as [|c p IH]; intros t Ht q; cbn [tget tupd] in *.
+  - inversion Ht; subst. destruct (Hd m x ch) as (m' & x' & -> & E). destruct q as [|k r]; cbn; [rewrite E|]; reflexivity.
+  - destruct t as [m0 x0 ch0| | |]; try discriminate. destruct (afind c ch0) as [y|] eqn:Ec; [|discriminate].
+    destruct q as [|k r]; [reflexivity|]. cbn [tget]. destruct (String.eqb c k) eqn:E.
+    + apply String.eqb_eq in E; subst k. rewrite afind_amap, Ec. cbn [option_map]. apply IH. exact Ht.
+    + rewrite (afind_amap_other _ _ _ _ E). reflexivity.
+Qed.
+Lemma wf_attr f : attr_fun f -> forall d, wf d -> wf (f d).
+Proof.
+  intros (Hf & Hd & Hl & Hw) d W. destruct d.
+  - destruct (Hd mode xs ch) as (m' & x' & -> & _). inversion W; subst. constructor; assumption.
+  - destruct (Hf ino mode data xs) as (j' & m' & d' & x' & ->). constructor.
+  - rewrite Hl. exact W.
+  - rewrite Hw. exact W.
+Qed.
+Lemma dir_attr f : attr_fun f -> forall d, is_dirT d = true -> is_dirT (f d) = true.
+Proof. intros (_ & Hd & _) d H. destruct d; try discriminate. destruct (Hd mode xs ch) as (m' & x' & -> & _). reflexivity. Qed.
+
+Lemma shape_safe_update p f : attr_fun f -> shape_safe (h_update p f).
+Proof.
+  intros Ha t t' H. unfold h_update in H. destruct (tget t p) as [[m x ch|i m d x|tg|]|] eqn:E; try discriminate; inversion H; subst; clear H.
+  - split; [intros q; apply (sh_tupd_attr p f Ha t m x ch E)|]. intros Hl. apply layer_ok_tupd; [apply wf_attr; exact Ha|apply dir_attr; exact Ha|exact Hl].
+  - split; [intros q; apply sh_tmap_ino; apply Ha|]. intros [W D]. split; [apply wf_tmap_ino; [apply Ha|exact W]|].
+    destruct t; try discriminate. reflexivity.
+Qed.
+Lemma shape_safe_setdata p g : shape_safe (h_setdata p g).
+Proof.
+  intros t t' H. unfold h_setdata in H. destruct (tget t p) as [[m x ch|i m d x|tg|]|] eqn:E; try discriminate; inversion H; subst; clear H.
+  assert (Hf : file_to_file (set_data g)) by (intros j m0 d0 x0; cbn; eauto).
+  split; [intros q; apply sh_tmap_ino; exact Hf|]. intros [W D]. split; [apply wf_tmap_ino; [exact Hf|exact W]|].
+  destruct t; try discriminate. reflexivity.
+Qed.
+Lemma attr_set_mode mo : attr_fun (set_mode mo).
+Proof. split; [intros j m d x; cbn; eauto|]. split; [intros m x ch; cbn; eauto|]. split; reflexivity. Qed.
+
+(* a shape-safe change of the upper layer keeps the state coherent *)
+Lemma mutate0_safe F s r s2 : shape_safe F -> Coherent s -> mutate 0 F s = (r, s2) -> Coherent s2.
+Proof.
+  intros HF HC Hm. destruct r as [[]|e]; [|rewrite (mutate0_same _ _ _ _ Hm); exact HC].
+  destruct (mutate0_spec _ _ _ Hm) as (t & t2 & Hu & Hf & Hu2 & Hl & Hr). destruct (HF t t2 Hf) as [Hs Hlo].
+  pose proof HC as (_ & Hw & _).
+  apply (coherent_shape_eq s s2); auto.
+  - intros i q. destruct i as [|j]; unfold shp, ent; cbn [get_layer]; [rewrite Hu, Hu2; apply Hs|rewrite Hl; reflexivity].
+  - rewrite Hl. reflexivity.
+  - apply (wf_layers_set_upper s s2 t2 Hw Hu2 Hl). apply Hlo. apply (Hw 0%nat t). cbn. exact Hu.
+  - eauto.
+Qed.
+
+(* "copy up unless already upper, then change the first backing inode" *)
+Lemma cpres_on_upper p (F : real -> tree -> tree -> res tree) {B} (k : M B) :
+  (forall r t, shape_safe (F r t)) -> cpres k ->
+  forall s, Coherent s -> (forall n, nget p (root s) = Some n -> n_wh n = false) ->
+  Coherent (snd ((n <- get_node p;; (if in_upper n then ret tt else copy_node_up p);;;
+                  rt <- first_tree p;; mutate (r_layer (fst rt)) (F (fst rt) (snd rt));;; k) s)).
+Proof.
+  intros HF Hk s HC Hnw.
+  unfold bind at 1. unfold get_node at 1. destruct (nget p (root s)) as [n|] eqn:Hg; [|exact HC].
+  unfold bind at 1.
+  destruct ((if in_upper n then ret tt else copy_node_up p) s) as [r1 s1] eqn:E1.
+  assert (H1 : Coherent s1 /\ (r1 = Ok tt -> upper_at' p s1)).
+  { destruct (in_upper n) eqn:Eu.
+    - inversion E1; subst. split; [exact HC|]. intros _ n2 Hn2. rewrite Hg in Hn2. inversion Hn2; subst. exact Eu.
+    - assert (Hnw' : forall n0, nget p (root s) = Some n0 -> n_wh n0 = false) by (intros n0 H0; apply Hnw; rewrite <- Hg; exact H0 || (rewrite Hg in H0; exact H0)).
+      destruct (cnu_coherent p s r1 s1 HC Hnw' E1) as (A1 & _ & _ & _ & B1). auto. }
+  destruct H1 as [HC1 Hup1]. destruct r1 as [[]|e]; [|exact HC1]. specialize (Hup1 eq_refl).
+  unfold bind at 1. unfold first_tree. unfold bind at 1. unfold get_node at 1.
+  destruct (nget p (root s1)) as [n1|] eqn:Hg1; [|exact HC1].
+  unfold bind at 1. unfold first_real. pose proof (Hup1 n1 Hg1) as Hu1. unfold in_upper in Hu1.
+  destruct (n_reals n1) as [|r rs] eqn:Er; [exact HC1|]. cbn [ret].
+  destruct (real_tree s1 r) as [t|]; [|exact HC1].
+  pose proof HC1 as (_ & _ & HCT1). pose proof (HCT1 p n1 Hg1) as N1. cbn [app] in N1.
+  destruct (first_upper_stack s1 p n1 r rs N1 Er Hu1) as (Hl0 & _ & _).
+  cbn [fst snd]. unfold bind at 1. rewrite Hl0.
+  destruct (mutate 0 (F r t) s1) as [r2 s2] eqn:Em.
+  pose proof (mutate0_safe (F r t) s1 r2 s2 (HF r t) HC1 Em) as HC2.
+  destruct r2 as [[]|e]; [|exact HC2]. apply Hk. exact HC2.
+Qed.
+
+Lemma cpres_lookup_then {B} p (m : M B) :
+  (forall s, Coherent s -> (forall n, nget p (root s) = Some n -> n_wh n = false) -> Coherent (snd (m s))) ->
+  cpres (lookup_node p None ;;; m).
+Proof.
+  intros Hm s HC. unfold bind. destruct (lookup_node p None s) as [[q|e] s1] eqn:E; cbn [snd].
+  - destruct (lookup_none_ok p s q s1 HC E) as [HC1 Hnw]. apply Hm; assumption.
+  - pose proof (cpres_lookup_node p None s HC) as H. rewrite E in H. exact H.
+Qed.
+Lemma cpres_checked_then {B} p (m : M B) :
+  (forall s, Coherent s -> (forall n, nget p (root s) = Some n -> n_wh n = false) -> Coherent (snd (m s))) ->
+  cpres (node_checked p ;;; m).
+Proof.
+  intros Hm s HC. unfold bind. destruct (node_checked p s) as [[[]|e] s1] eqn:E; cbn [snd].
+  - unfold node_checked in E. unfold bind at 1 in E. destruct (lookup_node p None s) as [[q|e0] s0] eqn:E0; [|discriminate].
+    destruct (lookup_none_ok p s q s0 HC E0) as [HC0 Hnw]. unfold bind, get_node in E.
+    destruct (nget p (root s0)) as [n|] eqn:Hg; [|discriminate]. destruct (n_wh n); inversion E; subst. apply Hm; [exact HC0|].
+    intros n0 H0. apply Hnw. rewrite Hg in H0. exact H0.
+  - pose proof (cpres_node_checked p s HC) as H. rewrite E in H. exact H.
+Qed.
+
+Lemma xs_opaque_aset k v x : is_opq_name k = false -> xs_opaque (aset k v x) = xs_opaque x.
+Proof.
+  intros H. unfold is_opq_name in H. apply orb_false_iff in H. destruct H as [H H3]. apply orb_false_iff in H. destruct H as [H1 H2].
+  unfold xs_opaque, xattr_y. rewrite !afind_aset. rewrite (String.eqb_sym OPQ1 k), (String.eqb_sym OPQ2 k), (String.eqb_sym OPQ3 k), H1, H2, H3. reflexivity.
+Qed.
+Lemma xs_opaque_adel k (x : xattrs) : is_opq_name k = false -> xs_opaque (adel k x) = xs_opaque x.
+Proof.
+  intros H. unfold is_opq_name in H. apply orb_false_iff in H. destruct H as [H H3]. apply orb_false_iff in H. destruct H as [H1 H2].
+  unfold xs_opaque, xattr_y. rewrite !afind_adel. rewrite (String.eqb_sym OPQ1 k), (String.eqb_sym OPQ2 k), (String.eqb_sym OPQ3 k), H1, H2, H3. reflexivity.
+Qed.
+Lemma attr_set_xs k v : is_opq_name k = false -> attr_fun (set_xs k v).
+Proof.
+  intros H. split; [intros j m d x; cbn; eauto|]. split; [|split; reflexivity].
+  intros m x ch. cbn. eexists. eexists. split; [reflexivity|apply xs_opaque_aset; exact H].
+Qed.
+Lemma attr_del_xs k : is_opq_name k = false -> attr_fun (del_xs k).
+Proof.
+  intros H. split; [intros j m d x; cbn; eauto|]. split; [|split; reflexivity].
+  intros m x ch. cbn. eexists. eexists. split; [reflexivity|apply xs_opaque_adel; exact H].
+Qed.
+Lemma shape_safe_removexattr p k : is_opq_name k = false -> shape_safe (h_removexattr p k).
+Proof.
+  intros H t t' Hr. unfold h_removexattr in Hr. destruct (tget t p) as [c|]; [|discriminate].
+  destruct (afind k (xs_of c)); [|discriminate]. exact (shape_safe_update p (del_xs k) (attr_del_xs k H) t t' Hr).
+Qed.
+
+Lemma cpres_chmod p mode : cpres (step (OChmod p mode)).
+Proof.
+  cbn [step]. apply cpres_bind; [apply cpres_walk|]. intros _. apply cpres_bind; [apply cpres_need_upper|]. intros _.
+  apply cpres_lookup_then. intros s HC Hnw.
+  apply (cpres_on_upper p (fun r _ => h_chmod (r_path r) mode)); auto.
+  - intros r t. apply shape_safe_update. apply attr_set_mode.
+  - apply cpres_bind; [apply cpres_first_tree|]. intros rt. apply cpres_ret.
+Qed.
+Lemma cpres_truncate p size : cpres (step (OTruncate p size)).
+Proof.
+  cbn [step]. apply cpres_bind; [apply cpres_walk|]. intros _. apply cpres_bind; [apply cpres_need_upper|]. intros _.
+  apply cpres_lookup_then. intros s HC Hnw.
+  apply (cpres_on_upper p (fun r _ => h_setdata (r_path r) (resize (N.to_nat size)))); auto.
+  - intros r t. apply shape_safe_setdata.
+  - apply cpres_bind; [apply cpres_first_tree|]. intros rt. apply cpres_ret.
+Qed.
+Lemma cpres_setxattr p k v : is_opq_name k = false -> cpres (step (OSetxattr p k v)).
+Proof.
+  intros Hk. cbn [step]. apply cpres_bind; [apply cpres_walk|]. intros _.
+  apply cpres_checked_then. intros s HC Hnw.
+  apply (cpres_on_upper p (fun r _ => h_setxattr (r_path r) k v)); auto.
+  - intros r t. apply shape_safe_update. apply attr_set_xs. exact Hk.
+  - apply cpres_ret.
+Qed.
+Lemma cpres_removexattr p k : is_opq_name k = false -> cpres (step (ORemovexattr p k)).
+Proof.
+  intros Hk. cbn [step]. apply cpres_bind; [apply cpres_walk|]. intros _.
+  apply cpres_checked_then. intros s HC Hnw.
+  apply (cpres_on_upper p (fun r _ => h_removexattr (r_path r) k)); auto.
+  - intros r t. apply shape_safe_removexattr. exact Hk.
+  - apply cpres_ret.
+Qed.
+
+(* open: coherent afterwards, and a handle obtained for writing refers to layer 0 *)
+Lemma do_open_coherent p fl s : Coherent s ->
+  Coherent (snd (do_open p fl s)) /\ (forall r, fst (do_open p fl s) = Ok r -> of_readonly fl = false -> r_layer r = 0%nat).
+Proof.
+  intros HC. destruct (do_open p fl s) as [res s'] eqn:Hrun. cbn [fst snd]. unfold do_open in Hrun.
+  unfold bind at 1 in Hrun. destruct (lookup_node p None s) as [[q|e] s1] eqn:E0.
+  2:{ pose proof (cpres_lookup_node p None s HC) as H. rewrite E0 in H. inversion Hrun; subst. split; [exact H|discriminate]. }
+  destruct (lookup_none_ok p s q s1 HC E0) as [HC1 Hnw].
+  unfold bind at 1 in Hrun. unfold get_node at 1 in Hrun. destruct (nget p (root s1)) as [n|] eqn:Hg; [|inversion Hrun; subst; split; [exact HC1|discriminate]].
+  destruct (n_wh n); [inversion Hrun; subst; split; [exact HC1|discriminate]|].
+  unfold bind at 1 in Hrun.
+  destruct ((if of_readonly fl then ret tt else copy_node_up p) s1) as [r1 s2] eqn:E1.
+  assert (H2 : Coherent s2 /\ (r1 = Ok tt -> of_readonly fl = false -> upper_at' p s2)).
+  { destruct (of_readonly fl).
+    - inversion E1; subst. split; [exact HC1|discriminate].
+    - assert (Hnw' : forall n0, nget p (root s1) = Some n0 -> n_wh n0 = false) by (intros n0 H0; apply Hnw; rewrite Hg in H0; exact H0).
+      destruct (cnu_coherent p s1 r1 s2 HC1 Hnw' E1) as (A1 & _ & _ & _ & B1). auto. }
+  destruct H2 as [HC2 Hup2]. destruct r1 as [[]|e]; [|inversion Hrun; subst; split; [exact HC2|discriminate]]. specialize (Hup2 eq_refl).
+  unfold bind at 1 in Hrun. unfold get_node at 1 in Hrun. destruct (nget p (root s2)) as [n2|] eqn:Hg2; [|inversion Hrun; subst; split; [exact HC2|discriminate]].
+  unfold bind at 1 in Hrun. unfold first_real in Hrun. destruct (n_reals n2) as [|r rs] eqn:Er; [inversion Hrun; subst; split; [exact HC2|discriminate]|].
+  cbn [ret] in Hrun. unfold bind at 1 in Hrun. destruct (real_tree s2 r) as [t|]; [|inversion Hrun; subst; split; [exact HC2|discriminate]].
+  assert (Hl0 : of_readonly fl = false -> r_layer r = 0%nat).
+  { intros Hf. pose proof (Hup2 Hf n2 Hg2) as Hu. unfold in_upper in Hu. rewrite Er in Hu.
+    pose proof HC2 as (_ & _ & HCT2). pose proof (HCT2 p n2 Hg2) as N2. cbn [app] in N2.
+    destruct (first_upper_stack s2 p n2 r rs N2 Er Hu) as (H0 & _). exact H0. }
+  destruct t.
+  - destruct (of_readonly fl); inversion Hrun; subst; (split; [exact HC2|]); [intros r0 H0 Hf; discriminate|discriminate].
+  - unfold bind at 1 in Hrun. destruct (of_trunc fl) eqn:Et.
+    + assert (Hf : of_readonly fl = false) by (destruct fl; try discriminate; reflexivity).
+      rewrite (Hl0 Hf) in Hrun.
+      destruct (mutate 0 (h_setdata (r_path r) (fun _ => [])) s2) as [r2 s3] eqn:Em.
+      pose proof (mutate0_safe _ s2 r2 s3 (shape_safe_setdata _ _) HC2 Em) as HC3.
+      destruct r2 as [[]|e]; inversion Hrun; subst; (split; [exact HC3|]); [|discriminate].
+      intros r0 H0 _. inversion H0; subst. exact (Hl0 Hf).
+    + cbn [ret] in Hrun. inversion Hrun; subst. split; [exact HC2|]. intros r0 H0 Hf. inversion H0; subst. exact (Hl0 Hf).
+  - inversion Hrun; subst. split; [exact HC2|discriminate].
+  - inversion Hrun; subst. split; [exact HC2|discriminate].
+Qed.
+Lemma cpres_open p fl : cpres (step (OOpen p fl)).
+Proof.
+  cbn [step]. apply cpres_bind; [apply cpres_walk|]. intros _.
+  apply cpres_bind; [intros s HC; apply (do_open_coherent p fl s HC)|]. intros r. apply cpres_ret.
+Qed.
+Lemma cpres_write p off data : cpres (step (OWrite p off data)).
+Proof.
+  cbn [step]. apply cpres_bind; [apply cpres_walk|]. intros _.
+  intros s HC. unfold bind at 1. destruct (do_open_coherent p OF_W s HC) as [HC1 Hl].
+  destruct (do_open p OF_W s) as [[r|e] s1]; cbn [fst snd] in *; [|exact HC1].
+  rewrite (Hl r eq_refl eq_refl). unfold bind at 1.
+  destruct (mutate 0 (h_setdata (r_path r) (write_at (N.to_nat off) data)) s1) as [r2 s2] eqn:Em.
+  pose proof (mutate0_safe _ s1 r2 s2 (shape_safe_setdata _ _) HC1 Em) as HC2.
+  destruct r2 as [[]|e]; exact HC2.
+Qed.
+
+(* ------------------------------------------------------------------ do_rm in general (rmdir): the directory may have been emptied
+   by empty_node_directory, i.e. the state differs from a coherent one strictly below the removed path *)
+Lemma adel_amap {A} k (f : A -> A) l : adel k (amap k f l) = adel k l.
+Proof.
+  unfold amap. induction l as [|[a x] l IH]; cbn [map adel fst snd]; [reflexivity|].
+  destruct (String.eqb k a) eqn:E; cbn [adel fst]; rewrite E; [exact IH|rewrite IH; reflexivity].
+Qed.
+Lemma nupd_ext pp g g' : (forall n, g n = g' n) -> forall r, nupd pp g r = nupd pp g' r.
+Proof.
+  intros H. induction pp as [|c pp IH]; intros r; cbn [nupd]; [apply H|]. f_equal. apply amap_ext. exact IH.
+Qed.
+Definition rm_tail2 (pp : path) (nm : name) (dir : bool) (c pn' : node) (need0 : bool) : M unit :=
+  need <- (if in_upper c then
+             pr <- upper_real pn' EINVAL ;;
+             mutate (r_layer pr) (if dir then h_rmdir (r_path pr) nm else h_unlink (r_path pr) nm) ;;;
+             ret (need0 && negb (r_opq pr))
+           else ret need0) ;;
+  remove_child pp nm ;;;
+  if need then
+    pn'' <- get_node pp ;;
+    pr <- upper_real pn'' EINVAL ;;
+    ri <- ri_whiteout pr nm ;;
+    insert_child pp nm (new_node ri)
+  else ret tt.
+
+Lemma rm_ok_shape (pp : path) (nm : name) (dir : bool) U Ua : (if dir then h_rmdir pp nm else h_unlink pp nm) U = Ok Ua -> Ua = tupd pp (dir_del nm) U.
+Proof.
+  destruct dir; [unfold h_rmdir|unfold h_unlink]; destruct (tget U pp) as [[m x ch| | |]|]; try discriminate;
+    destruct (afind nm ch) as [[m' x' [|? ?]| | |]|]; try discriminate; intros H; inversion H; reflexivity.
+Qed.
+
+Lemma rm_tail2_coherent (pp : path) (nm : name) dir s0 s3 U0 h hn c0 pn0 need0 r s' :
+  Coherent s0 -> upper s0 = Some U0 ->
+  nget (pp ++ [nm]) (root s0) = Some c0 -> nget pp (root s0) = Some pn0 -> upper_at' pp s0 ->
+  (forall m, n_reals (hn m) = n_reals m) ->
+  upper s3 = Some (tupd (pp ++ [nm]) h U0) -> lowers s3 = lowers s0 -> root s3 = nupd (pp ++ [nm]) hn (root s0) ->
+  (in_upper c0 = false -> upper s3 = Some U0 /\ root s3 = root s0) ->
+  (need0 = false -> upper_only c0 = true /\ lower_has_child s0 (n_reals pn0) nm = Ok false) ->
+  rm_tail2 pp nm dir (hn c0) (Node (n_reals pn0) (n_wh pn0) (n_loaded pn0) (amap nm hn (n_ch pn0))) need0 s3 = (r, s') ->
+  (* either the removal on disk failed and nothing changed since s3, or the result is coherent *)
+  (s' = s3 /\ exists e, (if dir then h_rmdir pp nm else h_unlink pp nm) (tupd (pp ++ [nm]) h U0) = Err e) \/ Coherent s'.
+Proof.
+  intros HC0 HU0 Hq0 Hg0 Hup0 Hhn Hu3 Hl3 Hr3 HB Hneed0 Hrun. unfold rm_tail2 in Hrun.
+  pose proof (Hup0 pn0 Hg0) as Hpu. unfold in_upper in Hpu.
+  destruct (n_reals pn0) as [|pr prs] eqn:Epr; [discriminate|].
+  pose proof HC0 as (_ & Hwl0 & HCT0). pose proof (HCT0 pp pn0 Hg0) as Npn0. cbn [app] in Npn0.
+  destruct (first_upper_stack s0 pp pn0 pr prs Npn0 Epr Hpu) as (Hl0 & Hpp & rest & Hstk).
+  pose proof (nget_child pp nm (root s0) pn0 c0 Hg0 Hq0) as Hch0.
+  assert (Hld0 : n_loaded pn0 = true).
+  { destruct (n_loaded pn0) eqn:El; [reflexivity|]. rewrite (ok_unl _ _ _ _ Npn0 El) in Hch0. discriminate. }
+  destruct (ok_ld _ _ _ _ Npn0 Hld0) as (_ & Fd0 & _). rewrite Epr in Fd0. cbn in Fd0.
+  assert (Hrg : rgood (shp s0) pp pr) by (pose proof (ok_reals _ _ _ _ Npn0) as G; rewrite Epr in G; exact (Forall_inv G)).
+  assert (Hpd : exists o, shp s0 0%nat pp = Some (SDir o)).
+  { destruct Hrg as (_ & _ & Hs). rewrite Hl0 in Hs. destruct (shp s0 0%nat pp) as [[o|w]|]; [eauto| |contradiction]. destruct Hs as (_ & Hd & _). congruence. }
+  destruct Hpd as [o Hpd]. destruct (shp_zero_dir s0 U0 pp o HU0 Hpd) as (m & x & ch & Etg).
+  assert (Hpd' : shp s0 0%nat pp = Some (SDir (xs_opaque x))) by (apply (sh_dir_of_tget s0 U0 pp m x ch HU0 Etg)).
+  pose proof (HCT0 _ _ Hq0) as Nc. cbn [app] in Nc.
+  destruct (first_good_stat s0 _ _ c0 Nc) as (rc1 & rcs & tc & Erc & Etc & _ & Hwtc & _ & Hpc).
+  pose proof (ok_reals _ _ _ _ Nc) as Gc. rewrite Erc in Gc. pose proof (Forall_inv Gc) as (_ & Hupc & _).
+  assert (Hag0 : forall i p', ~ is_prefix (pp ++ [nm]) p' -> shp s0 i p' = shp s0 i p') by reflexivity.
+  pose proof (kids_old (shp s0) (shp s0) (List.length (lowers s0)) pp nm Hag0 (fun j p' => eq_refl) rest _ Hstk Hpd') as Ko.
+  set (whri := mkReal 0 true (pp ++ [nm]) true false false).
+  assert (Hwf' : forall G, (forall d, wf d -> wf (chmap G d)) -> forall s4, upper s4 = Some (tupd pp (chmap G) U0) -> lowers s4 = lowers s0 -> wf_layers s4).
+  { intros G HGw s4 A B. apply (wf_layers_set_upper s0 s4 _ Hwl0 A B). apply layer_ok_tupd; [exact HGw| |apply (Hwl0 0%nat U0); cbn; exact HU0].
+    intros d Hd. destruct d; try discriminate. reflexivity. }
+  (* removing the child nm of pp forgets whatever happened below it *)
+  assert (Hdelroot : nupd pp (fun n => Node (n_reals n) (n_wh n) (n_loaded n) (adel nm (n_ch n))) (root s3) =
+                     nupd pp (fun n => Node (n_reals n) (n_wh n) (n_loaded n) (adel nm (n_ch n))) (root s0)).
+  { rewrite Hr3, nupd_app, nupd_nupd. apply nupd_ext. intros n. cbn [n_reals n_wh n_loaded n_ch]. rewrite adel_amap. reflexivity. }
+  assert (Hdelup : tupd pp (dir_del nm) (tupd (pp ++ [nm]) h U0) = tupd pp (dir_del nm) U0).
+  { rewrite tupd_snoc, tupd_tupd. apply tupd_ext. intros d. destruct d; try reflexivity. cbn [chmap dir_del]. rewrite adel_amap. reflexivity. }
+  unfold in_upper in Hrun. rewrite Hhn, Erc in Hrun.
+  destruct (r_upper rc1) eqn:Euc.
+  - symmetry in Hupc. apply Nat.eqb_eq in Hupc.
+    assert (Enm : afind nm ch = Some tc).
+    { rewrite Hupc in Etc. unfold ent in Etc. cbn [get_layer] in Etc. rewrite HU0, (tget_snoc U0 pp nm), Etg in Etc. exact Etc. }
+    unfold bind at 1 in Hrun. unfold bind at 1 in Hrun. unfold upper_real in Hrun. cbn [n_reals] in Hrun. rewrite Hpu in Hrun. cbn [ret] in Hrun.
+    unfold bind at 1 in Hrun. rewrite Hl0, Hpp in Hrun.
+    destruct (mutate 0 (if dir then h_rmdir pp nm else h_unlink pp nm) s3) as [[[]|e] s4] eqn:Em.
+    2:{ pose proof (mutate0_same _ _ _ _ Em). subst s4. inversion Hrun; subst r s'. left. split; [reflexivity|]. exists e.
+        unfold mutate in Em. cbn [get_layer] in Em. rewrite Hu3 in Em.
+        destruct ((if dir then h_rmdir pp nm else h_unlink pp nm) (tupd (pp ++ [nm]) h U0)); inversion Em; reflexivity. }
+    right.
+    destruct (mutate0_spec _ _ _ Em) as (U & Ua & HU & Hul & Hu4 & Hl4 & Hr4). rewrite Hu3 in HU. inversion HU; subst U; clear HU.
+    pose proof (rm_ok_shape pp nm dir _ _ Hul) as HUa. rewrite Hdelup in HUa. subst Ua. clear Hul.
+    cbn [ret] in Hrun. unfold bind at 1 in Hrun. unfold remove_child, mod_node in Hrun. cbn [fst snd] in Hrun.
+    rewrite Hr4, Hdelroot in Hrun.
+    set (need := need0 && negb (r_opq pr)) in Hrun.
+    destruct need eqn:Eneed.
+    + unfold bind at 1 in Hrun. unfold get_node at 1 in Hrun. cbn [root] in Hrun. rewrite nget_nupd, Hg0 in Hrun. cbn [option_map] in Hrun.
+      unfold bind at 1 in Hrun. unfold upper_real in Hrun. cbn [n_reals] in Hrun. rewrite Epr, Hpu in Hrun. cbn [ret] in Hrun.
+      unfold bind at 1 in Hrun. unfold ri_whiteout, ri_guard in Hrun. rewrite Hpu, Hl0, Hpp in Hrun.
+      unfold bind at 1 in Hrun. cbn [ret] in Hrun. unfold bind at 1 in Hrun.
+      set (s5 := mkState (upper s4) (lowers s4) (nupd pp (fun n => Node (n_reals n) (n_wh n) (n_loaded n) (adel nm (n_ch n))) (root s0)) (next_ino s4) (log s4)) in *.
+      assert (Em5 : mutate 0 (h_create_whiteout pp nm) s5 = (Ok tt, set_layer s5 0 (tupd pp (dir_ins nm Wh) (tupd pp (dir_del nm) U0)))).
+      { apply (mutate0_ok _ s5 (tupd pp (dir_del nm) U0)); [exact Hu4|].
+        unfold h_create_whiteout. rewrite (tget_snoc _ pp nm), tget_tupd, Etg. cbn [option_map dir_del]. rewrite afind_adel, String.eqb_refl.
+        unfold h_insert. rewrite tget_tupd, Etg. cbn [option_map dir_del]. rewrite afind_adel, String.eqb_refl. reflexivity. }
+      rewrite Em5 in Hrun. cbn [ret] in Hrun. unfold insert_child, mod_node in Hrun. inversion Hrun; subst r s'; clear Hrun.
+      set (G := fun l : list (name * tree) => aset nm Wh (adel nm l)).
+      apply (leaf_block s0 _ U0 pp nm G Wh pn0 rest m x ch whri).
+      * exact HC0.
+      * exact HU0.
+      * exact Etg.
+      * intros k Hk. apply String.eqb_neq in Hk. unfold G. rewrite afind_aset, Hk, afind_adel, Hk. reflexivity.
+      * unfold G. rewrite afind_aset, String.eqb_refl. reflexivity.
+      * intros k r0. reflexivity.
+      * cbn [upper set_layer s5]. rewrite Hu4. f_equal. rewrite tupd_tupd. apply tupd_ext. intros d. destruct d; reflexivity.
+      * cbn [lowers set_layer s5]. congruence.
+      * apply (Hwf' G).
+        -- intros d Hd. destruct d; try exact Hd. inversion Hd as [? ? ? Hn Hall| | |]; subst. cbn [chmap]. unfold G. constructor.
+           ++ apply keys_aset. apply keys_adel_nodup. exact Hn.
+           ++ apply Forall_aset; [apply Forall_adel; exact Hall|constructor].
+        -- cbn [upper set_layer s5]. rewrite Hu4. f_equal. rewrite tupd_tupd. apply tupd_ext. intros d. destruct d; reflexivity.
+        -- cbn [lowers set_layer s5]. congruence.
+      * exact Hg0.
+      * exact Hld0.
+      * exact Hstk.
+      * cbn. repeat split; auto.
+      * left. reflexivity.
+      * exists (fun pn1 => Node (n_reals pn1) (n_wh pn1) (n_loaded pn1) (aset nm (new_node whri) (adel nm (n_ch pn1)))).
+        split; [cbn [root set_layer s5]; rewrite nupd_nupd; reflexivity|]. cbn [n_reals n_wh n_loaded n_ch].
+        repeat split; auto.
+        -- apply keys_aset. apply keys_adel_nodup. apply Npn0.
+        -- rewrite afind_aset, String.eqb_refl. reflexivity.
+        -- intros k Hk. apply String.eqb_neq in Hk. rewrite afind_aset, Hk, afind_adel, Hk. reflexivity.
+    + cbn [ret] in Hrun. inversion Hrun; subst r s'; clear Hrun.
+      assert (Hlc : lowerc (shp s0) pp nm rest = []).
+      { unfold need in Eneed. apply andb_false_iff in Eneed. destruct Eneed as [E|E].
+        - destruct (Hneed0 E) as [_ Hlhc]. rewrite <- Epr in Hlhc. apply (lowerc_of_lhc s0 pp nm pn0 rest _ Hwl0 Npn0 Hstk Hpd' Hlhc).
+        - apply negb_false_iff in E. destruct Hrg as (_ & _ & Hs). rewrite Hl0, Hpd' in Hs. destruct Hs as (_ & _ & Ho).
+          specialize (Ho E). unfold lowerc. cbn [dcut]. rewrite Hpd', Ho. reflexivity. }
+      apply (del_block s0 _ U0 pp nm (adel nm) pn0 rest m x ch).
+      * exact HC0.
+      * exact HU0.
+      * exact Etg.
+      * intros k Hk. apply String.eqb_neq in Hk. rewrite afind_adel, Hk. reflexivity.
+      * rewrite afind_adel, String.eqb_refl. reflexivity.
+      * cbn [upper]. rewrite Hu4. reflexivity.
+      * cbn [lowers]. congruence.
+      * apply (Hwf' (adel nm)).
+        -- intros d Hd. apply wf_chmap_adel. exact Hd.
+        -- cbn [upper]. rewrite Hu4. reflexivity.
+        -- cbn [lowers]. congruence.
+      * exact Hg0.
+      * exact Hld0.
+      * exact Hstk.
+      * exact Hlc.
+      * exists (fun pn1 => Node (n_reals pn1) (n_wh pn1) (n_loaded pn1) (adel nm (n_ch pn1))).
+        split; [cbn [root]; reflexivity|]. cbn [n_reals n_wh n_loaded n_ch]. repeat split; auto.
+        -- apply keys_adel_nodup. apply Npn0.
+        -- rewrite afind_adel, String.eqb_refl. reflexivity.
+        -- intros k Hk. apply String.eqb_neq in Hk. rewrite afind_adel, Hk. reflexivity.
+  - right. symmetry in Hupc. apply Nat.eqb_neq in Hupc.
+    assert (Hiu : in_upper c0 = false) by (unfold in_upper; rewrite Erc; exact Euc).
+    destruct (HB Hiu) as [Hu3' Hr3'].
+    assert (Huo : upper_only c0 = false) by (unfold upper_only; rewrite Erc; destruct rcs; [exact Euc|reflexivity]).
+    assert (need0 = true).
+    { destruct need0; [reflexivity|]. destruct (Hneed0 eq_refl) as [H _]. congruence. }
+    subst need0.
+    assert (Enm : afind nm ch = None).
+    { destruct (afind nm ch) as [y|] eqn:Ey; [|reflexivity]. exfalso.
+      pose proof (ok_hd _ _ _ _ Nc) as Hh. rewrite Erc in Hh. cbn [map hd_error] in Hh. rewrite lstack_snoc, Ko in Hh.
+      assert (Hp0 : present (shp s0) (pp ++ [nm]) 0%nat = true).
+      { unfold present, shp, ent. cbn [get_layer]. rewrite HU0, (tget_snoc U0 pp nm), Etg, Ey. reflexivity. }
+      rewrite Hp0 in Hh. cbn in Hh. inversion Hh. congruence. }
+    unfold bind at 1 in Hrun. cbn [ret] in Hrun. unfold bind at 1 in Hrun. unfold remove_child, mod_node in Hrun. cbn [fst snd] in Hrun.
+    rewrite Hr3' in Hrun.
+    unfold bind at 1 in Hrun. unfold get_node at 1 in Hrun. cbn [root] in Hrun. rewrite nget_nupd, Hg0 in Hrun. cbn [option_map] in Hrun.
+    unfold bind at 1 in Hrun. unfold upper_real in Hrun. cbn [n_reals] in Hrun. rewrite Epr, Hpu in Hrun. cbn [ret] in Hrun.
+    unfold bind at 1 in Hrun. unfold ri_whiteout, ri_guard in Hrun. rewrite Hpu, Hl0, Hpp in Hrun.
+    unfold bind at 1 in Hrun. cbn [ret] in Hrun. unfold bind at 1 in Hrun.
+    set (s5 := mkState (upper s3) (lowers s3) (nupd pp (fun n => Node (n_reals n) (n_wh n) (n_loaded n) (adel nm (n_ch n))) (root s0)) (next_ino s3) (log s3)) in *.
+    assert (Em5 : mutate 0 (h_create_whiteout pp nm) s5 = (Ok tt, set_layer s5 0 (tupd pp (dir_ins nm Wh) U0))).
+    { apply (mutate0_ok _ s5 U0); [exact Hu3'|].
+      unfold h_create_whiteout. rewrite (tget_snoc _ pp nm), Etg, Enm. unfold h_insert. rewrite Etg, Enm. reflexivity. }
+    rewrite Em5 in Hrun. cbn [ret] in Hrun. unfold insert_child, mod_node in Hrun. inversion Hrun; subst r s'; clear Hrun.
+    apply (leaf_block s0 _ U0 pp nm (aset nm Wh) Wh pn0 rest m x ch whri).
+    + exact HC0.
+    + exact HU0.
+    + exact Etg.
+    + intros k Hk. apply String.eqb_neq in Hk. rewrite afind_aset, Hk. reflexivity.
+    + rewrite afind_aset, String.eqb_refl. reflexivity.
+    + intros k r0. reflexivity.
+    + cbn [upper set_layer s5]. rewrite Hu3'. reflexivity.
+    + cbn [lowers set_layer s5]. exact Hl3.
+    + apply (Hwf' (aset nm Wh)).
+      * intros d Hd. apply wf_chmap_aset; [exact Hd|constructor].
+      * cbn [upper set_layer s5]. rewrite Hu3'. reflexivity.
+      * cbn [lowers set_layer s5]. exact Hl3.
+    + exact Hg0.
+    + exact Hld0.
+    + exact Hstk.
+    + cbn. repeat split; auto.
+    + left. reflexivity.
+    + exists (fun pn1 => Node (n_reals pn1) (n_wh pn1) (n_loaded pn1) (aset nm (new_node whri) (adel nm (n_ch pn1)))).
+      split; [cbn [root set_layer s5]; rewrite nupd_nupd; reflexivity|]. cbn [n_reals n_wh n_loaded n_ch].
+      repeat split; auto.
+      * apply keys_aset. apply keys_adel_nodup. apply Npn0.
+      * rewrite afind_aset, String.eqb_refl. reflexivity.
+      * intros k Hk. apply String.eqb_neq in Hk. rewrite afind_aset, Hk, afind_adel, Hk. reflexivity.
+Qed.
+
+Lemma amap_id {A} c (l : list (string * A)) : amap c (fun x => x) l = l.
+Proof. unfold amap. induction l as [|[k v] l IH]; cbn [map fst snd]; [reflexivity|]. rewrite IH. destruct (String.eqb c k); reflexivity. Qed.
+Lemma tupd_id pp : forall U, tupd pp (fun t => t) U = U.
+Proof.
+  induction pp as [|c pp IH]; intros U; cbn [tupd]; [reflexivity|]. destruct U; try reflexivity.
+  f_equal. rewrite (amap_ext c _ (fun x => x) ch IH). apply amap_id.
+Qed.
+Lemma nupd_id pp : forall r, nupd pp (fun n => n) r = r.
+Proof.
+  induction pp as [|c pp IH]; intros r; cbn [nupd]; [reflexivity|].
+  rewrite (amap_ext c _ (fun x => x) (n_ch r) IH), amap_id. destruct r; reflexivity.
+Qed.
+Definition dels {A} (D : list string) (l : list (string * A)) : list (string * A) := fold_left (fun l k => adel k l) D l.
+Lemma afind_dels {A} k D : forall (l : list (string * A)), afind k (dels D l) = if existsb (String.eqb k) D then None else afind k l.
+Proof.
+  induction D as [|d D IH]; intros l; cbn [dels fold_left existsb]; [reflexivity|].
+  change (fold_left (fun l0 k0 => adel k0 l0) D (adel d l)) with (dels D (adel d l)). rewrite IH, afind_adel.
+  destruct (String.eqb k d); cbn [orb]; [destruct (existsb (String.eqb k) D); reflexivity|reflexivity].
+Qed.
+Lemma all_none_nil {A} (l : list (string * A)) : (forall k, afind k l = None) -> l = [].
+Proof. destruct l as [|[k v] l]; [reflexivity|]. intros H. specialize (H k). cbn [afind] in H. rewrite String.eqb_refl in H. discriminate. Qed.
+Lemma afind_In {A} k (c : A) l : afind k l = Some c -> In (k, c) l.
+Proof.
+  induction l as [|[a x] l IH]; cbn [afind]; [discriminate|]. destruct (String.eqb k a) eqn:E.
+  - apply String.eqb_eq in E; subst. intros H; inversion H; subst. left; reflexivity.
+  - intros H. right. auto.
+Qed.
+Lemma filter_len0 {A} (f : A -> bool) l x : List.length (filter f l) = 0%nat -> In x l -> f x = false.
+Proof.
+  induction l as [|a l IH]; intros H Hi; [destruct Hi|]. cbn [filter] in H. destruct (f a) eqn:E; [discriminate|].
+  destruct Hi as [->|Hi]; [exact E|auto].
+Qed.
+Lemma lhc_lowers s s' rs nm : lowers s' = lowers s -> Forall (fun r => r_upper r = Nat.eqb (r_layer r) 0) rs ->
+  lower_has_child s' rs nm = lower_has_child s rs nm.
+Proof.
+  intros Hl. induction rs as [|r rs IH]; intros F; cbn [lower_has_child]; [reflexivity|].
+  inversion F as [|? ? Hr F']; subst. rewrite (IH F').
+  destruct (r_upper r) eqn:Eu; cbn [orb]; [reflexivity|].
+  assert (real_tree s' r = real_tree s r) as ->; [|reflexivity].
+  unfold real_tree. symmetry in Hr. apply Nat.eqb_neq in Hr. destruct (r_layer r) as [|j]; [congruence|]. cbn [get_layer]. rewrite Hl. reflexivity.
+Qed.
+Lemma parent_in_upper s (pp : path) (nm : name) pn c : Coherent s -> nget pp (root s) = Some pn -> nget (pp ++ [nm]) (root s) = Some c ->
+  in_upper c = true -> in_upper pn = true.
+Proof.
+  intros HC Hg Hq Hiu. pose proof HC as (_ & _ & HCT).
+  pose proof (HCT _ _ Hq) as Nc. pose proof (HCT _ _ Hg) as Np. cbn [app] in Nc, Np.
+  pose proof (ok_ne _ _ _ _ Nc) as Hnec. unfold in_upper in Hiu. destruct (n_reals c) as [|rc rcs] eqn:Erc; [contradiction|].
+  destruct (first_upper_stack s _ c rc rcs Nc Erc Hiu) as (_ & _ & rest & Hst).
+  rewrite lstack_snoc in Hst.
+  assert (H0 : In 0%nat (lstack (shp s) (List.length (lowers s)) pp)).
+  { assert (H : In 0%nat (kids (shp s) pp (lstack (shp s) (List.length (lowers s)) pp) nm)) by (rewrite Hst; left; reflexivity).
+    unfold kids in H. apply filter_In in H. destruct H as [H _].
+    apply (incr_dcut (shp s) pp _ (incr_lstack (shp s) (List.length (lowers s)) pp)) in H. exact H. }
+  destruct (incr_zero_head _ (incr_lstack (shp s) (List.length (lowers s)) pp) H0) as [r' Hr'].
+  pose proof (ok_hd _ _ _ _ Np) as Hh. pose proof (ok_reals _ _ _ _ Np) as Hr. pose proof (ok_ne _ _ _ _ Np) as Hne.
+  unfold in_upper. destruct (n_reals pn) as [|r rs]; [contradiction|]. cbn [map hd_error] in Hh.
+  pose proof (Forall_inv Hr) as (_ & Hu & _). rewrite Hu. apply Nat.eqb_eq. rewrite Hr' in Hh. cbn in Hh. congruence.
+Qed.
+
+Definition rm_post (pp : path) (nm : name) (dir : bool) : M unit :=
+  copy_node_up pp ;;;
+  n2 <- get_node (pp ++ [nm]) ;;
+  pn' <- get_node pp ;;
+  need0 <- (if upper_only n2
+            then fun s => match lower_has_child s (n_reals pn') nm with Ok b => (Ok b, s) | Err e => (Err e, s) end
+            else ret true) ;;
+  rm_tail2 pp nm dir n2 pn' need0.
+
+Lemma rm_post_plain (pp : path) (nm : name) dir s2 pn2 c :
+  Coherent s2 -> nget pp (root s2) = Some pn2 -> n_wh pn2 = false -> nget (pp ++ [nm]) (root s2) = Some c ->
+  Coherent (snd (rm_post pp nm dir s2)).
+Proof.
+  intros HC2 Hg2 Hw2 Hqc. destruct (rm_post pp nm dir s2) as [r s'] eqn:Hrun. cbn [snd]. unfold rm_post in Hrun.
+  unfold bind at 1 in Hrun. destruct (copy_node_up pp s2) as [rc s3] eqn:Ecu.
+  destruct (cnu_coherent pp s2 rc s3 HC2) as (HC3 & SP3 & Hl3 & Fr3 & Hup3); [intros n0 Hn0; rewrite Hg2 in Hn0; inversion Hn0; subst; exact Hw2|exact Ecu|].
+  destruct rc as [[]|e]; [|inversion Hrun; subst; exact HC3]. specialize (Hup3 eq_refl).
+  assert (Hq3 : nget (pp ++ [nm]) (root s3) = Some c) by (rewrite (Fr3 (pp ++ [nm]) (not_prefix_snoc pp nm)); exact Hqc).
+  unfold bind at 1 in Hrun. unfold get_node at 1 in Hrun. rewrite Hq3 in Hrun.
+  destruct (same_paths_some s2 s3 pp pn2 SP3 Hg2) as (pn3 & Hg3 & _).
+  unfold bind at 1 in Hrun. unfold get_node at 1 in Hrun. rewrite Hg3 in Hrun.
+  unfold bind at 1 in Hrun.
+  pose proof HC3 as ([U3 HU3] & _).
+  assert (Hpn3 : pn3 = Node (n_reals pn3) (n_wh pn3) (n_loaded pn3) (amap nm (fun n : node => n) (n_ch pn3))) by (rewrite amap_id; destruct pn3; reflexivity).
+  assert (Fin : forall need0, (need0 = false -> upper_only c = true /\ lower_has_child s3 (n_reals pn3) nm = Ok false) ->
+                rm_tail2 pp nm dir c pn3 need0 s3 = (r, s') -> Coherent s').
+  { intros need0 Hn0 Hr. rewrite Hpn3 in Hr.
+    destruct (rm_tail2_coherent pp nm dir s3 s3 U3 (fun t => t) (fun n => n) c pn3 need0 r s' HC3 HU3 Hq3 Hg3 Hup3) as [[-> _]|H]; auto.
+    - rewrite tupd_id. exact HU3.
+    - rewrite nupd_id. reflexivity. }
+  destruct (upper_only c) eqn:Euo.
+  - destruct (lower_has_child s3 (n_reals pn3) nm) as [b|e] eqn:Elhc; [|inversion Hrun; subst; exact HC3].
+    apply (Fin b); [|exact Hrun]. intros ->. auto.
+  - cbn [ret] in Hrun. apply (Fin true); [discriminate|exact Hrun].
+Qed.
+
+Definition delsn (D : list string) (n : node) : node := Node (n_reals n) (n_wh n) (n_loaded n) (dels D (n_ch n)).
+Lemma empty_children_run (q : path) : forall cs s U m x ch,
+  upper s = Some U -> tget U q = Some (Dir m x ch) ->
+  (forall k c', In (k, c') cs -> in_upper c' = true -> n_wh c' = true /\ afind k ch = Some Wh) ->
+  NoDup (map fst cs) ->
+  exists s', empty_children q 0 q cs s = (Ok tt, s') /\
+    upper s' = Some (tupd q (chmap (dels (map fst (filter (fun kv => in_upper (snd kv)) cs)))) U) /\
+    lowers s' = lowers s /\
+    root s' = nupd q (delsn (map fst (filter (fun kv => in_upper (snd kv)) cs))) (root s).
+Proof.
+  induction cs as [|[k c'] cs IH]; intros s U m x ch HU Etg Hall Hnd.
+  - exists s. cbn [empty_children ret filter map]. split; [reflexivity|]. split.
+    + rewrite HU. f_equal. rewrite (tupd_ext q _ (fun t => t)); [rewrite tupd_id; reflexivity|]. intros d. destruct d; reflexivity.
+    + split; [reflexivity|]. rewrite (nupd_ext q _ (fun n => n)); [rewrite nupd_id; reflexivity|]. intros n. destruct n; reflexivity.
+  - cbn [empty_children filter snd]. inversion Hnd as [|? ? Hnot Hnd']; subst.
+    destruct (in_upper c') eqn:Eiu.
+    + destruct (Hall k c' (or_introl eq_refl) Eiu) as [Hw Hk]. rewrite Hw.
+      assert (Hdw : h_delete_whiteout q k U = Ok (tupd q (dir_del k) U)).
+      { unfold h_delete_whiteout. rewrite (tget_snoc U q k), Etg, Hk. unfold h_unlink. rewrite Etg, Hk. reflexivity. }
+      unfold bind at 1. unfold bind at 1. rewrite (mutate0_ok _ s U _ HU Hdw).
+      unfold remove_child, mod_node. cbn [fst snd].
+      set (s1 := mkState _ _ _ _ _).
+      destruct (IH s1 (tupd q (dir_del k) U) m x (adel k ch)) as (s' & Hrun & Hu' & Hl' & Hr').
+      * unfold s1. cbn [upper set_layer]. rewrite HU. reflexivity.
+      * rewrite tget_tupd, Etg. reflexivity.
+      * intros k2 c2 Hin Hiu2. destruct (Hall k2 c2 (or_intror Hin) Hiu2) as [A B]. split; [exact A|].
+        rewrite afind_adel. destruct (String.eqb k2 k) eqn:E; [|exact B]. apply String.eqb_eq in E; subst k2.
+        exfalso. apply Hnot. cbn [fst]. apply (in_map fst _ _ Hin).
+      * exact Hnd'.
+      * exists s'. split; [exact Hrun|]. cbn [map fst]. split.
+        -- rewrite Hu'. f_equal. rewrite tupd_tupd. apply tupd_ext. intros d. destruct d; reflexivity.
+        -- split; [rewrite Hl'; reflexivity|]. rewrite Hr'. unfold s1. cbn [root set_layer upper]. rewrite ?HU. cbn [root]. rewrite nupd_nupd. apply nupd_ext.
+           intros n. reflexivity.
+    + unfold bind at 1. cbn [ret]. apply (IH s U m x ch HU Etg); [|exact Hnd'].
+      intros k2 c2 Hin. apply Hall. right. exact Hin.
 Qed.
